@@ -854,16 +854,17 @@ pp_dealloc:  \* [pipe] stop polling: the poll function (input stream and closure
 
 \* ---- PipeStream::poll_next driven by block_on
 procedure PipeNext(np)
-  variables nbp = NoW; {
+  variables nbp = NoW, nres = 0; {
 cn_poll:     \* [pcore]
   nbp := ppBP[np];
   ppBP[np] := NoW;
-  if (ppPending[np] # << >>) { h := ObsOut(h, np, Head(ppPending[np])); ppPending[np] := Tail(ppPending[np]); rv[self] := 0; }
-  else if (ppClosed[np]) { h := ObsOutEnd(h, np); rv[self] := 0; }
+  if (ppPending[np] # << >>) { nres := Head(ppPending[np]); ppPending[np] := Tail(ppPending[np]); rv[self] := 0; }
+  else if (ppClosed[np]) { nres := 0 - 1; rv[self] := 0; }
   else { ppNotify[np] := TASK(self); rv[self] := 5; };
   if (IsLocking(nbp)) { call Wake(nbp); };
-z_cn_after:
-  if (rv[self] = 5) { goto cn_park; } else { return; };
+z_cn_after:  \* the consumer sees the item only once poll_next has returned (after it has released the back-pressure)
+  if (rv[self] = 5) { goto cn_park; }
+  else { h := IF nres < 0 THEN ObsOutEnd(h, np) ELSE ObsOut(h, np, nres); return; };
 cn_park:     \* [park]
   await parkTok[self];
   parkTok[self] := FALSE;
@@ -1053,7 +1054,8 @@ CtxAlive(p) == \/ HoldsCtx(inWaker[p])
 
 VARIABLES dead, sti, rq, sq, sj, ww, rsq, bown, bwk, bi, bcur, bw, jq, jj, 
           jwk, fj, dq, dj, oq, oop, omode, oj, yq, yop, tq, top, af, wf, wop, 
-          sf, sctx, xf, cop, kj, pp, np, nbp, dp, pf, pctx, pq, pj, pd, nq
+          sf, sctx, xf, cop, kj, pp, np, nbp, nres, dp, pf, pctx, pq, pj, pd, 
+          nq
 
 vars == << pc, qstate, qpoll, jobs, wakeBlocked, schedule, pthreads, nspawned, 
            palive, busy, busyLocked, inbox, chanOpen, pfin, thrHeld, 
@@ -1065,8 +1067,8 @@ vars == << pc, qstate, qpoll, jobs, wakeBlocked, schedule, pthreads, nspawned,
            inClosed, inWaker, pollFn, chuteFn, pwTaken, nextPoll, ppItem, h, 
            stack, dead, sti, rq, sq, sj, ww, rsq, bown, bwk, bi, bcur, bw, jq, 
            jj, jwk, fj, dq, dj, oq, oop, omode, oj, yq, yop, tq, top, af, wf, 
-           wop, sf, sctx, xf, cop, kj, pp, np, nbp, dp, pf, pctx, pq, pj, pd, 
-           nq >>
+           wop, sf, sctx, xf, cop, kj, pp, np, nbp, nres, dp, pf, pctx, pq, 
+           pj, pd, nq >>
 
 ProcSet == (Threads) \cup (PoolSet)
 
@@ -1190,6 +1192,7 @@ Init == (* Global variables *)
         (* Procedure PipeNext *)
         /\ np = [ self \in ProcSet |-> defaultInitValue]
         /\ nbp = [ self \in ProcSet |-> NoW]
+        /\ nres = [ self \in ProcSet |-> 0]
         (* Procedure PipeDrop *)
         /\ dp = [ self \in ProcSet |-> defaultInitValue]
         (* Procedure PollFuture *)
@@ -1226,7 +1229,7 @@ st_reap(self) == /\ pc[self] = "st_reap"
                                  ww, rsq, bown, bwk, bi, bcur, bw, jq, jj, jwk, 
                                  fj, dq, dj, oq, oop, omode, oj, yq, yop, tq, 
                                  top, af, wf, wop, sf, sctx, xf, cop, kj, pp, 
-                                 np, nbp, dp, pf, pctx, pq, pj, pd, nq >>
+                                 np, nbp, nres, dp, pf, pctx, pq, pj, pd, nq >>
 
 st_join(self) == /\ pc[self] = "st_join"
                  /\ dead' = [dead EXCEPT ![self] = Tail(dead[self])]
@@ -1249,8 +1252,8 @@ st_join(self) == /\ pc[self] = "st_join"
                                  sti, rq, sq, sj, ww, rsq, bown, bwk, bi, bcur, 
                                  bw, jq, jj, jwk, fj, dq, dj, oq, oop, omode, 
                                  oj, yq, yop, tq, top, af, wf, wop, sf, sctx, 
-                                 xf, cop, kj, pp, np, nbp, dp, pf, pctx, pq, 
-                                 pj, pd, nq >>
+                                 xf, cop, kj, pp, np, nbp, nres, dp, pf, pctx, 
+                                 pq, pj, pd, nq >>
 
 st_dormant(self) == /\ pc[self] = "st_dormant"
                     /\ (thrHeld = "" \/ thrHeld = self) /\ (thrHeld = self => ~busyLocked[pthreads[sti[self]]])
@@ -1286,8 +1289,8 @@ st_dormant(self) == /\ pc[self] = "st_dormant"
                                     sq, sj, ww, rsq, bown, bwk, bi, bcur, bw, 
                                     jq, jj, jwk, fj, dq, dj, oq, oop, omode, 
                                     oj, yq, yop, tq, top, af, wf, wop, sf, 
-                                    sctx, xf, cop, kj, pp, np, nbp, dp, pf, 
-                                    pctx, pq, pj, pd, nq >>
+                                    sctx, xf, cop, kj, pp, np, nbp, nres, dp, 
+                                    pf, pctx, pq, pj, pd, nq >>
 
 st_max(self) == /\ pc[self] = "st_max"
                 /\ TRUE
@@ -1307,7 +1310,8 @@ st_max(self) == /\ pc[self] = "st_max"
                                 sj, ww, rsq, bown, bwk, bi, bcur, bw, jq, jj, 
                                 jwk, fj, dq, dj, oq, oop, omode, oj, yq, yop, 
                                 tq, top, af, wf, wop, sf, sctx, xf, cop, kj, 
-                                pp, np, nbp, dp, pf, pctx, pq, pj, pd, nq >>
+                                pp, np, nbp, nres, dp, pf, pctx, pq, pj, pd, 
+                                nq >>
 
 st_spawn(self) == /\ pc[self] = "st_spawn"
                   /\ thrHeld = ""
@@ -1339,7 +1343,8 @@ st_spawn(self) == /\ pc[self] = "st_spawn"
                                   sj, ww, rsq, bown, bwk, bi, bcur, bw, jq, jj, 
                                   jwk, fj, dq, dj, oq, oop, omode, oj, yq, yop, 
                                   tq, top, af, wf, wop, sf, sctx, xf, cop, kj, 
-                                  pp, np, nbp, dp, pf, pctx, pq, pj, pd, nq >>
+                                  pp, np, nbp, nres, dp, pf, pctx, pq, pj, pd, 
+                                  nq >>
 
 ScheduleThread(self) == st_reap(self) \/ st_join(self) \/ st_dormant(self)
                            \/ st_max(self) \/ st_spawn(self)
@@ -1381,7 +1386,7 @@ rq_core(self) == /\ pc[self] = "rq_core"
                                  rsq, bown, bwk, bi, bcur, bw, jq, jj, jwk, fj, 
                                  dq, dj, oq, oop, omode, oj, yq, yop, tq, top, 
                                  af, wf, wop, sf, sctx, xf, cop, kj, pp, np, 
-                                 nbp, dp, pf, pctx, pq, pj, pd, nq >>
+                                 nbp, nres, dp, pf, pctx, pq, pj, pd, nq >>
 
 rq_notify(self) == /\ pc[self] = "rq_notify"
                    /\ cnotif' = [cnotif EXCEPT ![Head(rwb[self])] = cwait[Head(rwb[self])]]
@@ -1410,8 +1415,8 @@ rq_notify(self) == /\ pc[self] = "rq_notify"
                                    h, dead, sti, sq, sj, ww, rsq, bown, bwk, 
                                    bi, bcur, bw, jq, jj, jwk, fj, dq, dj, oq, 
                                    oop, omode, oj, yq, yop, tq, top, af, wf, 
-                                   wop, sf, sctx, xf, cop, kj, pp, np, nbp, dp, 
-                                   pf, pctx, pq, pj, pd, nq >>
+                                   wop, sf, sctx, xf, cop, kj, pp, np, nbp, 
+                                   nres, dp, pf, pctx, pq, pj, pd, nq >>
 
 rq_sched(self) == /\ pc[self] = "rq_sched"
                   /\ schedule' = Append(schedule, rq[self])
@@ -1438,8 +1443,8 @@ rq_sched(self) == /\ pc[self] = "rq_sched"
                                   sq, sj, ww, rsq, bown, bwk, bi, bcur, bw, jq, 
                                   jj, jwk, fj, dq, dj, oq, oop, omode, oj, yq, 
                                   yop, tq, top, af, wf, wop, sf, sctx, xf, cop, 
-                                  kj, pp, np, nbp, dp, pf, pctx, pq, pj, pd, 
-                                  nq >>
+                                  kj, pp, np, nbp, nres, dp, pf, pctx, pq, pj, 
+                                  pd, nq >>
 
 Reschedule(self) == rq_core(self) \/ rq_notify(self) \/ rq_sched(self)
 
@@ -1476,7 +1481,7 @@ sj_push(self) == /\ pc[self] = "sj_push"
                                  bown, bwk, bi, bcur, bw, jq, jj, jwk, fj, dq, 
                                  dj, oq, oop, omode, oj, yq, yop, tq, top, af, 
                                  wf, wop, sf, sctx, xf, cop, kj, pp, np, nbp, 
-                                 dp, pf, pctx, pq, pj, pd, nq >>
+                                 nres, dp, pf, pctx, pq, pj, pd, nq >>
 
 sj_sched(self) == /\ pc[self] = "sj_sched"
                   /\ schedule' = Append(schedule, sq[self])
@@ -1503,8 +1508,8 @@ sj_sched(self) == /\ pc[self] = "sj_sched"
                                   sq, sj, ww, rsq, bown, bwk, bi, bcur, bw, jq, 
                                   jj, jwk, fj, dq, dj, oq, oop, omode, oj, yq, 
                                   yop, tq, top, af, wf, wop, sf, sctx, xf, cop, 
-                                  kj, pp, np, nbp, dp, pf, pctx, pq, pj, pd, 
-                                  nq >>
+                                  kj, pp, np, nbp, nres, dp, pf, pctx, pq, pj, 
+                                  pd, nq >>
 
 z_sj_ret(self) == /\ pc[self] = "z_sj_ret"
                   /\ rv' = [rv EXCEPT ![self] = 0]
@@ -1527,8 +1532,8 @@ z_sj_ret(self) == /\ pc[self] = "z_sj_ret"
                                   sti, rq, ww, rsq, bown, bwk, bi, bcur, bw, 
                                   jq, jj, jwk, fj, dq, dj, oq, oop, omode, oj, 
                                   yq, yop, tq, top, af, wf, wop, sf, sctx, xf, 
-                                  cop, kj, pp, np, nbp, dp, pf, pctx, pq, pj, 
-                                  pd, nq >>
+                                  cop, kj, pp, np, nbp, nres, dp, pf, pctx, pq, 
+                                  pj, pd, nq >>
 
 ScheduleJob(self) == sj_push(self) \/ sj_sched(self) \/ z_sj_ret(self)
 
@@ -1661,7 +1666,8 @@ wk_lock(self) == /\ pc[self] = "wk_lock"
                                  sti, rsq, bown, bwk, bi, bcur, bw, jq, jj, 
                                  jwk, fj, dq, dj, oq, oop, omode, oj, yq, yop, 
                                  tq, top, af, wf, wop, sf, sctx, xf, cop, kj, 
-                                 pp, np, nbp, dp, pf, pctx, pq, pj, pd, nq >>
+                                 pp, np, nbp, nres, dp, pf, pctx, pq, pj, pd, 
+                                 nq >>
 
 z_wk_second(self) == /\ pc[self] = "z_wk_second"
                      /\ IF IsLocking(dblW2[ww[self].d])
@@ -1689,7 +1695,8 @@ z_wk_second(self) == /\ pc[self] = "z_wk_second"
                                      bown, bwk, bi, bcur, bw, jq, jj, jwk, fj, 
                                      dq, dj, oq, oop, omode, oj, yq, yop, tq, 
                                      top, af, wf, wop, sf, sctx, xf, cop, kj, 
-                                     pp, np, nbp, dp, pf, pctx, pq, pj, pd, nq >>
+                                     pp, np, nbp, nres, dp, pf, pctx, pq, pj, 
+                                     pd, nq >>
 
 z_pw_after(self) == /\ pc[self] = "z_pw_after"
                     /\ strong' = [strong EXCEPT ![O(ww[self].d)] = strong[O(ww[self].d)] - 1]
@@ -1723,8 +1730,8 @@ z_pw_after(self) == /\ pc[self] = "z_pw_after"
                                     rq, sq, sj, rsq, bown, bwk, bi, bcur, bw, 
                                     jq, jj, jwk, fj, dq, dj, oq, oop, omode, 
                                     oj, tq, top, af, wf, wop, sf, sctx, xf, 
-                                    cop, kj, pp, np, nbp, dp, pf, pctx, pq, pj, 
-                                    pd, nq >>
+                                    cop, kj, pp, np, nbp, nres, dp, pf, pctx, 
+                                    pq, pj, pd, nq >>
 
 pw_take(self) == /\ pc[self] = "pw_take"
                  /\ chuteFn' = [chuteFn EXCEPT ![OpTab[ww[self].d].p] = pollFn[OpTab[ww[self].d].p]]
@@ -1752,8 +1759,8 @@ pw_take(self) == /\ pc[self] = "pw_take"
                                  h, dead, sti, rq, ww, rsq, bown, bwk, bi, 
                                  bcur, bw, jq, jj, jwk, fj, dq, dj, oq, oop, 
                                  omode, oj, yq, yop, tq, top, af, wf, wop, sf, 
-                                 sctx, xf, cop, kj, pp, np, nbp, dp, pf, pctx, 
-                                 pq, pj, pd, nq >>
+                                 sctx, xf, cop, kj, pp, np, nbp, nres, dp, pf, 
+                                 pctx, pq, pj, pd, nq >>
 
 z_wk_ret(self) == /\ pc[self] = "z_wk_ret"
                   /\ pc' = [pc EXCEPT ![self] = Head(stack[self]).pc]
@@ -1774,8 +1781,8 @@ z_wk_ret(self) == /\ pc[self] = "z_wk_ret"
                                   sti, rq, sq, sj, rsq, bown, bwk, bi, bcur, 
                                   bw, jq, jj, jwk, fj, dq, dj, oq, oop, omode, 
                                   oj, yq, yop, tq, top, af, wf, wop, sf, sctx, 
-                                  xf, cop, kj, pp, np, nbp, dp, pf, pctx, pq, 
-                                  pj, pd, nq >>
+                                  xf, cop, kj, pp, np, nbp, nres, dp, pf, pctx, 
+                                  pq, pj, pd, nq >>
 
 Wake(self) == wk_lock(self) \/ z_wk_second(self) \/ z_pw_after(self)
                  \/ pw_take(self) \/ z_wk_ret(self)
@@ -1813,8 +1820,8 @@ rb_step(self) == /\ pc[self] = "rb_step"
                                  dead, sti, rq, sq, sj, ww, rsq, bown, bwk, bw, 
                                  jq, jj, jwk, fj, dq, dj, oq, oop, omode, oj, 
                                  yq, yop, tq, top, af, wf, wop, sf, sctx, xf, 
-                                 cop, kj, pp, np, nbp, dp, pf, pctx, pq, pj, 
-                                 pd, nq >>
+                                 cop, kj, pp, np, nbp, nres, dp, pf, pctx, pq, 
+                                 pj, pd, nq >>
 
 z_finish(self) == /\ pc[self] = "z_finish"
                   /\ IF bown[self] = 0
@@ -1905,7 +1912,7 @@ z_finish(self) == /\ pc[self] = "z_finish"
                                   dead, sti, rq, sq, sj, ww, jq, jj, jwk, fj, 
                                   dq, dj, oq, oop, omode, oj, yq, yop, tq, top, 
                                   af, wf, wop, sf, sctx, xf, cop, kj, pp, np, 
-                                  nbp, dp, pf, pctx, pq, pj, pd, nq >>
+                                  nbp, nres, dp, pf, pctx, pq, pj, pd, nq >>
 
 z_pollaw(self) == /\ pc[self] = "z_pollaw"
                   /\ IF K(0 - AwItem(bown[self])) = "fsync"
@@ -1948,7 +1955,7 @@ z_pollaw(self) == /\ pc[self] = "z_pollaw"
                                   sti, rq, sq, sj, ww, rsq, bown, bwk, bi, 
                                   bcur, bw, jq, jj, jwk, fj, dq, dj, oq, oop, 
                                   omode, oj, yq, yop, tq, top, af, wf, wop, xf, 
-                                  cop, kj, pp, np, nbp, dp, nq >>
+                                  cop, kj, pp, np, nbp, nres, dp, nq >>
 
 z_pollaw_after(self) == /\ pc[self] = "z_pollaw_after"
                         /\ IF rv[self] = 5
@@ -1985,8 +1992,8 @@ z_pollaw_after(self) == /\ pc[self] = "z_pollaw_after"
                                         dead, sti, rq, sq, sj, ww, jq, jj, jwk, 
                                         fj, dq, dj, oq, oop, omode, oj, yq, 
                                         yop, tq, top, af, wf, wop, sf, sctx, 
-                                        xf, cop, kj, pp, np, nbp, dp, pf, pctx, 
-                                        pq, pj, pd, nq >>
+                                        xf, cop, kj, pp, np, nbp, nres, dp, pf, 
+                                        pctx, pq, pj, pd, nq >>
 
 rb_block(self) == /\ pc[self] = "rb_block"
                   /\ parkTok[self]
@@ -2007,8 +2014,8 @@ rb_block(self) == /\ pc[self] = "rb_block"
                                   dead, sti, rq, sq, sj, ww, rsq, bown, bwk, 
                                   bi, bcur, bw, jq, jj, jwk, fj, dq, dj, oq, 
                                   oop, omode, oj, yq, yop, tq, top, af, wf, 
-                                  wop, sf, sctx, xf, cop, kj, pp, np, nbp, dp, 
-                                  pf, pctx, pq, pj, pd, nq >>
+                                  wop, sf, sctx, xf, cop, kj, pp, np, nbp, 
+                                  nres, dp, pf, pctx, pq, pj, pd, nq >>
 
 z_dispatch(self) == /\ pc[self] = "z_dispatch"
                     /\ IF K(bcur[self]) = "desync"
@@ -2025,8 +2032,8 @@ z_dispatch(self) == /\ pc[self] = "z_dispatch"
                                                parkTok, rv, strong, inItems, 
                                                inClosed, inWaker, h, ww, bw, 
                                                yq, yop, tq, top, af, wf, wop, 
-                                               sf, sctx, xf, cop, np, nbp, dp, 
-                                               pf, pctx, pq, pj, pd >>
+                                               sf, sctx, xf, cop, np, nbp, 
+                                               nres, dp, pf, pctx, pq, pj, pd >>
                           ELSE /\ IF K(bcur[self]) = "sync"
                                      THEN /\ /\ stack' = [stack EXCEPT ![self] = << [ procedure |->  "Sync",
                                                                                       pc        |->  "rb_step",
@@ -2043,8 +2050,9 @@ z_dispatch(self) == /\ pc[self] = "z_dispatch"
                                                           inWaker, h, sq, sj, 
                                                           ww, bw, tq, top, af, 
                                                           wf, wop, sf, sctx, 
-                                                          xf, cop, np, nbp, dp, 
-                                                          pf, pctx, pq, pj, pd >>
+                                                          xf, cop, np, nbp, 
+                                                          nres, dp, pf, pctx, 
+                                                          pq, pj, pd >>
                                      ELSE /\ IF K(bcur[self]) = "drop_obj"
                                                 THEN /\ strong' = [strong EXCEPT ![O(bcur[self])] = strong[O(bcur[self])] - 1]
                                                      /\ IF strong'[O(bcur[self])] = 1 - 1
@@ -2077,10 +2085,10 @@ z_dispatch(self) == /\ pc[self] = "z_dispatch"
                                                                      wop, sf, 
                                                                      sctx, xf, 
                                                                      cop, np, 
-                                                                     nbp, dp, 
-                                                                     pf, pctx, 
-                                                                     pq, pj, 
-                                                                     pd >>
+                                                                     nbp, nres, 
+                                                                     dp, pf, 
+                                                                     pctx, pq, 
+                                                                     pj, pd >>
                                                 ELSE /\ IF K(bcur[self]) \in {"pipe", "pipe_in"}
                                                            THEN /\ /\ cop' = [cop EXCEPT ![self] = bcur[self]]
                                                                    /\ stack' = [stack EXCEPT ![self] = << [ procedure |->  "PipeCreate",
@@ -2112,6 +2120,7 @@ z_dispatch(self) == /\ pc[self] = "z_dispatch"
                                                                                 xf, 
                                                                                 np, 
                                                                                 nbp, 
+                                                                                nres, 
                                                                                 dp, 
                                                                                 pf, 
                                                                                 pctx, 
@@ -2155,6 +2164,7 @@ z_dispatch(self) == /\ pc[self] = "z_dispatch"
                                                                                            xf, 
                                                                                            np, 
                                                                                            nbp, 
+                                                                                           nres, 
                                                                                            dp, 
                                                                                            pf, 
                                                                                            pctx, 
@@ -2166,9 +2176,11 @@ z_dispatch(self) == /\ pc[self] = "z_dispatch"
                                                                                          /\ stack' = [stack EXCEPT ![self] = << [ procedure |->  "PipeNext",
                                                                                                                                   pc        |->  "rb_step",
                                                                                                                                   nbp       |->  nbp[self],
+                                                                                                                                  nres      |->  nres[self],
                                                                                                                                   np        |->  np[self] ] >>
                                                                                                                               \o stack[self]]
                                                                                       /\ nbp' = [nbp EXCEPT ![self] = NoW]
+                                                                                      /\ nres' = [nres EXCEPT ![self] = 0]
                                                                                       /\ pc' = [pc EXCEPT ![self] = "cn_poll"]
                                                                                       /\ UNCHANGED << jkind, 
                                                                                                       gfired, 
@@ -2534,7 +2546,8 @@ z_dispatch(self) == /\ pc[self] = "z_dispatch"
                                                                                                                                        top >>
                                                                                                  /\ dp' = dp
                                                                                       /\ UNCHANGED << np, 
-                                                                                                      nbp >>
+                                                                                                      nbp, 
+                                                                                                      nres >>
                                                                            /\ UNCHANGED << inItems, 
                                                                                            inClosed, 
                                                                                            inWaker >>
@@ -2588,8 +2601,8 @@ z_then(self) == /\ pc[self] = "z_then"
                                 nextPoll, ppItem, h, dead, sti, rq, sq, sj, ww, 
                                 rsq, bown, bwk, bi, bcur, bw, jq, jj, jwk, fj, 
                                 dq, dj, oq, oop, omode, oj, yq, yop, tq, top, 
-                                wf, wop, sf, sctx, cop, kj, pp, np, nbp, dp, 
-                                pf, pctx, pq, pj, pd, nq >>
+                                wf, wop, sf, sctx, cop, kj, pp, np, nbp, nres, 
+                                dp, pf, pctx, pq, pj, pd, nq >>
 
 z_polled(self) == /\ pc[self] = "z_polled"
                   /\ IF rv[self] \in {0, 3, 4}
@@ -2612,8 +2625,8 @@ z_polled(self) == /\ pc[self] = "z_polled"
                                   dead, sti, rq, sq, sj, ww, rsq, bown, bwk, 
                                   bi, bcur, bw, jq, jj, jwk, fj, dq, dj, oq, 
                                   oop, omode, oj, yq, yop, tq, top, af, wf, 
-                                  wop, sf, sctx, xf, cop, kj, pp, np, nbp, dp, 
-                                  pf, pctx, pq, pj, pd, nq >>
+                                  wop, sf, sctx, xf, cop, kj, pp, np, nbp, 
+                                  nres, dp, pf, pctx, pq, pj, pd, nq >>
 
 pp_setdepth(self) == /\ pc[self] = "pp_setdepth"
                      /\ ppDepth' = [ppDepth EXCEPT ![OpTab[bcur[self]].p] = OpTab[bcur[self]].n]
@@ -2636,7 +2649,8 @@ pp_setdepth(self) == /\ pc[self] = "pp_setdepth"
                                      bown, bwk, bi, bcur, bw, jq, jj, jwk, fj, 
                                      dq, dj, oq, oop, omode, oj, yq, yop, tq, 
                                      top, af, wf, wop, sf, sctx, xf, cop, kj, 
-                                     pp, np, nbp, dp, pf, pctx, pq, pj, pd, nq >>
+                                     pp, np, nbp, nres, dp, pf, pctx, pq, pj, 
+                                     pd, nq >>
 
 rb_wait(self) == /\ pc[self] = "rb_wait"
                  /\ parkTok[self]
@@ -2661,7 +2675,7 @@ rb_wait(self) == /\ pc[self] = "rb_wait"
                                  rsq, bown, bwk, bi, bcur, bw, jq, jj, jwk, fj, 
                                  dq, dj, oq, oop, omode, oj, yq, yop, tq, top, 
                                  af, wf, wop, sf, sctx, xf, cop, kj, pp, np, 
-                                 nbp, dp, pf, pctx, pq, pj, pd, nq >>
+                                 nbp, nres, dp, pf, pctx, pq, pj, pd, nq >>
 
 mx_set(self) == /\ pc[self] = "mx_set"
                 /\ maxThreads' = OpTab[bcur[self]].n
@@ -2683,7 +2697,7 @@ mx_set(self) == /\ pc[self] = "mx_set"
                                 bown, bwk, bi, bcur, bw, jq, jj, jwk, fj, dq, 
                                 dj, oq, oop, omode, oj, yq, yop, tq, top, af, 
                                 wf, wop, sf, sctx, xf, cop, kj, pp, np, nbp, 
-                                dp, pf, pctx, pq, pj, pd, nq >>
+                                nres, dp, pf, pctx, pq, pj, pd, nq >>
 
 RunOps(self) == rb_step(self) \/ z_finish(self) \/ z_pollaw(self)
                    \/ z_pollaw_after(self) \/ rb_block(self)
@@ -3019,7 +3033,7 @@ z_rj(self) == /\ pc[self] = "z_rj"
                               inWaker, pollFn, pwTaken, nextPoll, ppItem, dead, 
                               sti, rq, sq, sj, fj, dq, dj, oq, oop, omode, oj, 
                               tq, top, af, wf, wop, sf, sctx, xf, cop, np, nbp, 
-                              dp, pf, pctx, pq, pj, pd, nq >>
+                              nres, dp, pf, pctx, pq, pj, pd, nq >>
 
 z_rj_ret(self) == /\ pc[self] = "z_rj_ret"
                   /\ pc' = [pc EXCEPT ![self] = Head(stack[self]).pc]
@@ -3042,8 +3056,8 @@ z_rj_ret(self) == /\ pc[self] = "z_rj_ret"
                                   sti, rq, sq, sj, ww, rsq, bown, bwk, bi, 
                                   bcur, bw, fj, dq, dj, oq, oop, omode, oj, yq, 
                                   yop, tq, top, af, wf, wop, sf, sctx, xf, cop, 
-                                  kj, pp, np, nbp, dp, pf, pctx, pq, pj, pd, 
-                                  nq >>
+                                  kj, pp, np, nbp, nres, dp, pf, pctx, pq, pj, 
+                                  pd, nq >>
 
 z_rj_ok(self) == /\ pc[self] = "z_rj_ok"
                  /\ rv' = [rv EXCEPT ![self] = 0]
@@ -3066,8 +3080,8 @@ z_rj_ok(self) == /\ pc[self] = "z_rj_ok"
                                  nextPoll, ppItem, h, dead, sti, rq, sq, sj, 
                                  ww, rsq, bown, bwk, bi, bcur, bw, fj, dq, dj, 
                                  oq, oop, omode, oj, yq, yop, tq, top, af, wf, 
-                                 wop, sf, sctx, xf, cop, kj, pp, np, nbp, dp, 
-                                 pf, pctx, pq, pj, pd, nq >>
+                                 wop, sf, sctx, xf, cop, kj, pp, np, nbp, nres, 
+                                 dp, pf, pctx, pq, pj, pd, nq >>
 
 z_pp_gc(self) == /\ pc[self] = "z_pp_gc"
                  /\ IF pollFn[OpTab[jj[self]].p] /\ rv[self] = 0 /\ ~(\/ HoldsCtx(inWaker[OpTab[jj[self]].p])
@@ -3097,7 +3111,7 @@ z_pp_gc(self) == /\ pc[self] = "z_pp_gc"
                                  sj, ww, rsq, bown, bwk, bi, bcur, bw, fj, dq, 
                                  dj, oq, oop, omode, oj, yq, yop, tq, top, af, 
                                  wf, wop, sf, sctx, xf, cop, kj, pp, np, nbp, 
-                                 dp, pf, pctx, pq, pj, pd, nq >>
+                                 nres, dp, pf, pctx, pq, pj, pd, nq >>
 
 z_slot2(self) == /\ pc[self] = "z_slot2"
                  /\ IF dnState[jj[self]] # "open"
@@ -3129,8 +3143,8 @@ z_slot2(self) == /\ pc[self] = "z_slot2"
                                  nextPoll, ppItem, h, dead, sti, rq, sq, sj, 
                                  ww, rsq, bown, bwk, bi, bcur, bw, fj, dq, dj, 
                                  oq, oop, omode, oj, yq, yop, tq, top, af, wf, 
-                                 wop, sf, sctx, xf, cop, kj, pp, np, nbp, dp, 
-                                 pf, pctx, pq, pj, pd, nq >>
+                                 wop, sf, sctx, xf, cop, kj, pp, np, nbp, nres, 
+                                 dp, pf, pctx, pq, pj, pd, nq >>
 
 sus_signal(self) == /\ pc[self] = "sus_signal"
                     /\ LET w == fwaker[jj[self]] IN
@@ -3163,8 +3177,8 @@ sus_signal(self) == /\ pc[self] = "sus_signal"
                                     rsq, bown, bwk, bi, bcur, bw, jq, jj, jwk, 
                                     fj, dq, dj, oq, oop, omode, oj, yq, yop, 
                                     tq, top, af, wf, wop, sf, sctx, xf, cop, 
-                                    kj, pp, np, nbp, dp, pf, pctx, pq, pj, pd, 
-                                    nq >>
+                                    kj, pp, np, nbp, nres, dp, pf, pctx, pq, 
+                                    pj, pd, nq >>
 
 sus_sigdrop(self) == /\ pc[self] = "sus_sigdrop"
                      /\ jaw' = [jaw EXCEPT ![jj[self]] = 1]
@@ -3194,8 +3208,8 @@ sus_sigdrop(self) == /\ pc[self] = "sus_sigdrop"
                                      rq, sq, sj, ww, rsq, bown, bwk, bi, bcur, 
                                      bw, fj, dq, dj, oq, oop, omode, oj, yq, 
                                      yop, tq, top, af, wf, wop, sf, sctx, xf, 
-                                     cop, kj, pp, np, nbp, dp, pf, pctx, pq, 
-                                     pj, pd, nq >>
+                                     cop, kj, pp, np, nbp, nres, dp, pf, pctx, 
+                                     pq, pj, pd, nq >>
 
 sus_inner(self) == /\ pc[self] = "sus_inner"
                    /\ TRUE
@@ -3216,8 +3230,8 @@ sus_inner(self) == /\ pc[self] = "sus_inner"
                                    sq, sj, ww, rsq, bown, bwk, bi, bcur, bw, 
                                    jq, jj, jwk, fj, dq, dj, oq, oop, omode, oj, 
                                    yq, yop, tq, top, af, wf, wop, sf, sctx, xf, 
-                                   cop, kj, pp, np, nbp, dp, pf, pctx, pq, pj, 
-                                   pd, nq >>
+                                   cop, kj, pp, np, nbp, nres, dp, pf, pctx, 
+                                   pq, pj, pd, nq >>
 
 sus_innerdrop(self) == /\ pc[self] = "sus_innerdrop"
                        /\ rv' = [rv EXCEPT ![self] = 0]
@@ -3243,8 +3257,8 @@ sus_innerdrop(self) == /\ pc[self] = "sus_innerdrop"
                                        sj, ww, rsq, bown, bwk, bi, bcur, bw, 
                                        fj, dq, dj, oq, oop, omode, oj, yq, yop, 
                                        tq, top, af, wf, wop, sf, sctx, xf, cop, 
-                                       kj, pp, np, nbp, dp, pf, pctx, pq, pj, 
-                                       pd, nq >>
+                                       kj, pp, np, nbp, nres, dp, pf, pctx, pq, 
+                                       pj, pd, nq >>
 
 ws_take(self) == /\ pc[self] = "ws_take"
                  /\ IF fres[OpTab[jj[self]].f] = "some"
@@ -3278,8 +3292,8 @@ ws_take(self) == /\ pc[self] = "ws_take"
                                  ppItem, h, dead, sti, rq, sq, sj, ww, rsq, 
                                  bown, bwk, bi, bcur, bw, fj, dq, dj, oq, oop, 
                                  omode, oj, yq, yop, tq, top, af, wf, wop, sf, 
-                                 sctx, xf, cop, kj, pp, np, nbp, dp, pf, pctx, 
-                                 pq, pj, pd, nq >>
+                                 sctx, xf, cop, kj, pp, np, nbp, nres, dp, pf, 
+                                 pctx, pq, pj, pd, nq >>
 
 RunJob(self) == z_rj(self) \/ z_rj_ret(self) \/ z_rj_ok(self)
                    \/ z_pp_gc(self) \/ z_slot2(self) \/ sus_signal(self)
@@ -3323,7 +3337,8 @@ fj_lock(self) == /\ pc[self] = "fj_lock"
                                  sti, rq, sq, sj, rsq, bown, bwk, bi, bcur, bw, 
                                  jq, jj, jwk, dq, dj, oq, oop, omode, oj, yq, 
                                  yop, tq, top, af, wf, wop, sf, sctx, xf, cop, 
-                                 kj, pp, np, nbp, dp, pf, pctx, pq, pj, pd, nq >>
+                                 kj, pp, np, nbp, nres, dp, pf, pctx, pq, pj, 
+                                 pd, nq >>
 
 z_fj_chk(self) == /\ pc[self] = "z_fj_chk"
                   /\ IF jpanic[fj[self]] /\ jkind[fj[self]] = "fut"
@@ -3347,8 +3362,8 @@ z_fj_chk(self) == /\ pc[self] = "z_fj_chk"
                                   sti, rq, sq, sj, ww, rsq, bown, bwk, bi, 
                                   bcur, bw, jq, jj, jwk, dq, dj, oq, oop, 
                                   omode, oj, yq, yop, tq, top, af, wf, wop, sf, 
-                                  sctx, xf, cop, kj, pp, np, nbp, dp, pf, pctx, 
-                                  pq, pj, pd, nq >>
+                                  sctx, xf, cop, kj, pp, np, nbp, nres, dp, pf, 
+                                  pctx, pq, pj, pd, nq >>
 
 fj_sigdrop(self) == /\ pc[self] = "fj_sigdrop"
                     /\ pc' = [pc EXCEPT ![self] = Head(stack[self]).pc]
@@ -3370,8 +3385,8 @@ fj_sigdrop(self) == /\ pc[self] = "fj_sigdrop"
                                     dead, sti, rq, sq, sj, ww, rsq, bown, bwk, 
                                     bi, bcur, bw, jq, jj, jwk, dq, dj, oq, oop, 
                                     omode, oj, yq, yop, tq, top, af, wf, wop, 
-                                    sf, sctx, xf, cop, kj, pp, np, nbp, dp, pf, 
-                                    pctx, pq, pj, pd, nq >>
+                                    sf, sctx, xf, cop, kj, pp, np, nbp, nres, 
+                                    dp, pf, pctx, pq, pj, pd, nq >>
 
 FinishJob(self) == fj_lock(self) \/ z_fj_chk(self) \/ fj_sigdrop(self)
 
@@ -3405,8 +3420,8 @@ pd_deq(self) == /\ pc[self] = "pd_deq"
                                 nextPoll, ppItem, h, dead, sti, rq, sq, sj, ww, 
                                 rsq, bown, bwk, bi, bcur, bw, fj, dq, oq, oop, 
                                 omode, oj, yq, yop, tq, top, af, wf, wop, sf, 
-                                sctx, xf, cop, kj, pp, np, nbp, dp, pf, pctx, 
-                                pq, pj, pd, nq >>
+                                sctx, xf, cop, kj, pp, np, nbp, nres, dp, pf, 
+                                pctx, pq, pj, pd, nq >>
 
 z_pd_after(self) == /\ pc[self] = "z_pd_after"
                     /\ IF rv[self] = 5
@@ -3447,8 +3462,8 @@ z_pd_after(self) == /\ pc[self] = "z_pd_after"
                                     dead, sti, rq, sq, sj, ww, rsq, bown, bwk, 
                                     bi, bcur, bw, jq, jj, jwk, dq, dj, oq, oop, 
                                     omode, oj, yq, yop, tq, top, af, wf, wop, 
-                                    sf, sctx, xf, cop, kj, pp, np, nbp, dp, pf, 
-                                    pctx, pq, pj, pd, nq >>
+                                    sf, sctx, xf, cop, kj, pp, np, nbp, nres, 
+                                    dp, pf, pctx, pq, pj, pd, nq >>
 
 pd_requeue(self) == /\ pc[self] = "pd_requeue"
                     /\ jobs' = [jobs EXCEPT ![dq[self]] = << dj[self] >> \o jobs[dq[self]]]
@@ -3470,7 +3485,8 @@ pd_requeue(self) == /\ pc[self] = "pd_requeue"
                                     bown, bwk, bi, bcur, bw, jq, jj, jwk, fj, 
                                     dq, dj, oq, oop, omode, oj, yq, yop, tq, 
                                     top, af, wf, wop, sf, sctx, xf, cop, kj, 
-                                    pp, np, nbp, dp, pf, pctx, pq, pj, pd, nq >>
+                                    pp, np, nbp, nres, dp, pf, pctx, pq, pj, 
+                                    pd, nq >>
 
 pd_park(self) == /\ pc[self] = "pd_park"
                  /\ IF qstate[dq[self]] = "Running"
@@ -3501,7 +3517,7 @@ pd_park(self) == /\ pc[self] = "pd_park"
                                  ww, rsq, bown, bwk, bi, bcur, bw, jq, jj, jwk, 
                                  fj, oq, oop, omode, oj, yq, yop, tq, top, af, 
                                  wf, wop, sf, sctx, xf, cop, kj, pp, np, nbp, 
-                                 dp, pf, pctx, pq, pj, pd, nq >>
+                                 nres, dp, pf, pctx, pq, pj, pd, nq >>
 
 pd_end(self) == /\ pc[self] = "pd_end"
                 /\ IF jobs[dq[self]] = << >>
@@ -3537,8 +3553,8 @@ pd_end(self) == /\ pc[self] = "pd_end"
                                 nextPoll, ppItem, h, dead, sti, rq, sq, sj, ww, 
                                 rsq, bown, bwk, bi, bcur, bw, jq, jj, jwk, fj, 
                                 oq, oop, omode, oj, yq, yop, tq, top, af, wf, 
-                                wop, sf, sctx, xf, cop, kj, pp, np, nbp, dp, 
-                                pf, pctx, pq, pj, pd, nq >>
+                                wop, sf, sctx, xf, cop, kj, pp, np, nbp, nres, 
+                                dp, pf, pctx, pq, pj, pd, nq >>
 
 pd_panic(self) == /\ pc[self] = "pd_panic"
                   /\ qstate' = [qstate EXCEPT ![dq[self]] = "Panicked"]
@@ -3562,7 +3578,7 @@ pd_panic(self) == /\ pc[self] = "pd_panic"
                                   ww, rsq, bown, bwk, bi, bcur, bw, jq, jj, 
                                   jwk, fj, oq, oop, omode, oj, yq, yop, tq, 
                                   top, af, wf, wop, sf, sctx, xf, cop, kj, pp, 
-                                  np, nbp, dp, pf, pctx, pq, pj, pd, nq >>
+                                  np, nbp, nres, dp, pf, pctx, pq, pj, pd, nq >>
 
 PoolDrain(self) == pd_deq(self) \/ z_pd_after(self) \/ pd_requeue(self)
                       \/ pd_park(self) \/ pd_end(self) \/ pd_panic(self)
@@ -3608,7 +3624,8 @@ ro_deq(self) == /\ pc[self] = "ro_deq"
                                 nextPoll, ppItem, h, dead, sti, rq, sq, sj, ww, 
                                 rsq, bown, bwk, bi, bcur, bw, fj, dq, dj, yq, 
                                 yop, tq, top, af, wf, wop, sf, sctx, xf, cop, 
-                                kj, pp, np, nbp, dp, pf, pctx, pq, pj, pd, nq >>
+                                kj, pp, np, nbp, nres, dp, pf, pctx, pq, pj, 
+                                pd, nq >>
 
 z_ro_after(self) == /\ pc[self] = "z_ro_after"
                     /\ IF rv[self] = 5
@@ -3649,8 +3666,8 @@ z_ro_after(self) == /\ pc[self] = "z_ro_after"
                                     dead, sti, rq, sq, sj, ww, rsq, bown, bwk, 
                                     bi, bcur, bw, jq, jj, jwk, dq, dj, oq, oop, 
                                     omode, oj, yq, yop, tq, top, af, wf, wop, 
-                                    sf, sctx, xf, cop, kj, pp, np, nbp, dp, pf, 
-                                    pctx, pq, pj, pd, nq >>
+                                    sf, sctx, xf, cop, kj, pp, np, nbp, nres, 
+                                    dp, pf, pctx, pq, pj, pd, nq >>
 
 z_ro_done(self) == /\ pc[self] = "z_ro_done"
                    /\ IF omode[self] = "sd" /\ ~sdres[oop[self]]
@@ -3678,8 +3695,8 @@ z_ro_done(self) == /\ pc[self] = "z_ro_done"
                                    ppItem, h, dead, sti, rq, sq, sj, ww, rsq, 
                                    bown, bwk, bi, bcur, bw, jq, jj, jwk, fj, 
                                    dq, dj, yq, yop, tq, top, af, wf, wop, sf, 
-                                   sctx, xf, cop, kj, pp, np, nbp, dp, pf, 
-                                   pctx, pq, pj, pd, nq >>
+                                   sctx, xf, cop, kj, pp, np, nbp, nres, dp, 
+                                   pf, pctx, pq, pj, pd, nq >>
 
 z_ro_panic(self) == /\ pc[self] = "z_ro_panic"
                     /\ rv' = [rv EXCEPT ![self] = 9]
@@ -3705,7 +3722,8 @@ z_ro_panic(self) == /\ pc[self] = "z_ro_panic"
                                     rq, sq, sj, ww, rsq, bown, bwk, bi, bcur, 
                                     bw, jq, jj, jwk, fj, dq, dj, yq, yop, tq, 
                                     top, af, wf, wop, sf, sctx, xf, cop, kj, 
-                                    pp, np, nbp, dp, pf, pctx, pq, pj, pd, nq >>
+                                    pp, np, nbp, nres, dp, pf, pctx, pq, pj, 
+                                    pd, nq >>
 
 ro_park(self) == /\ pc[self] = "ro_park"
                  /\ IF qstate[oq[self]] = "AwokenWhileRunning"
@@ -3739,8 +3757,8 @@ ro_park(self) == /\ pc[self] = "ro_park"
                                  nextPoll, ppItem, h, dead, sti, rq, sq, sj, 
                                  ww, rsq, bown, bwk, bi, bcur, bw, fj, dq, dj, 
                                  oq, oop, omode, oj, yq, yop, tq, top, af, wf, 
-                                 wop, sf, sctx, xf, cop, kj, pp, np, nbp, dp, 
-                                 pf, pctx, pq, pj, pd, nq >>
+                                 wop, sf, sctx, xf, cop, kj, pp, np, nbp, nres, 
+                                 dp, pf, pctx, pq, pj, pd, nq >>
 
 ro_check(self) == /\ pc[self] = "ro_check"
                   /\ IF qstate[oq[self]] \in {"Running", "AwokenWhileRunning"}
@@ -3773,8 +3791,8 @@ ro_check(self) == /\ pc[self] = "ro_check"
                                   sti, rq, sq, sj, ww, rsq, bown, bwk, bi, 
                                   bcur, bw, fj, dq, dj, oq, oop, omode, oj, yq, 
                                   yop, tq, top, af, wf, wop, sf, sctx, xf, cop, 
-                                  kj, pp, np, nbp, dp, pf, pctx, pq, pj, pd, 
-                                  nq >>
+                                  kj, pp, np, nbp, nres, dp, pf, pctx, pq, pj, 
+                                  pd, nq >>
 
 ro_parked(self) == /\ pc[self] = "ro_parked"
                    /\ parkTok[self]
@@ -3797,7 +3815,7 @@ ro_parked(self) == /\ pc[self] = "ro_parked"
                                    rsq, bown, bwk, bi, bcur, bw, jq, jj, jwk, 
                                    fj, dq, dj, oq, oop, omode, oj, yq, yop, tq, 
                                    top, af, wf, wop, sf, sctx, xf, cop, kj, pp, 
-                                   np, nbp, dp, pf, pctx, pq, pj, pd, nq >>
+                                   np, nbp, nres, dp, pf, pctx, pq, pj, pd, nq >>
 
 RunOne(self) == ro_deq(self) \/ z_ro_after(self) \/ z_ro_done(self)
                    \/ z_ro_panic(self) \/ ro_park(self) \/ ro_check(self)
@@ -3857,8 +3875,8 @@ sy_decide(self) == /\ pc[self] = "sy_decide"
                                    h, dead, sti, rq, sq, sj, ww, rsq, bown, 
                                    bwk, bi, bcur, bw, fj, dq, dj, oq, oop, 
                                    omode, oj, tq, top, af, wf, wop, sf, sctx, 
-                                   xf, cop, kj, pp, np, nbp, dp, pf, pctx, pq, 
-                                   pj, pd, nq >>
+                                   xf, cop, kj, pp, np, nbp, nres, dp, pf, 
+                                   pctx, pq, pj, pd, nq >>
 
 z_si_chk(self) == /\ pc[self] = "z_si_chk"
                   /\ IF rv[self] = 9
@@ -3879,8 +3897,8 @@ z_si_chk(self) == /\ pc[self] = "z_si_chk"
                                   dead, sti, rq, sq, sj, ww, rsq, bown, bwk, 
                                   bi, bcur, bw, jq, jj, jwk, fj, dq, dj, oq, 
                                   oop, omode, oj, yq, yop, tq, top, af, wf, 
-                                  wop, sf, sctx, xf, cop, kj, pp, np, nbp, dp, 
-                                  pf, pctx, pq, pj, pd, nq >>
+                                  wop, sf, sctx, xf, cop, kj, pp, np, nbp, 
+                                  nres, dp, pf, pctx, pq, pj, pd, nq >>
 
 si_idle(self) == /\ pc[self] = "si_idle"
                  /\ qstate' = [qstate EXCEPT ![yq[self]] = "Idle"]
@@ -3905,7 +3923,7 @@ si_idle(self) == /\ pc[self] = "si_idle"
                                  rsq, bown, bwk, bi, bcur, bw, jq, jj, jwk, fj, 
                                  dq, dj, oq, oop, omode, oj, yq, yop, tq, top, 
                                  af, wf, wop, sf, sctx, xf, cop, kj, pp, np, 
-                                 nbp, dp, pf, pctx, pq, pj, pd, nq >>
+                                 nbp, nres, dp, pf, pctx, pq, pj, pd, nq >>
 
 z_si_ret(self) == /\ pc[self] = "z_si_ret"
                   /\ rv' = [rv EXCEPT ![self] = 0]
@@ -3928,8 +3946,8 @@ z_si_ret(self) == /\ pc[self] = "z_si_ret"
                                   sti, rq, sq, sj, ww, rsq, bown, bwk, bi, 
                                   bcur, bw, jq, jj, jwk, fj, dq, dj, oq, oop, 
                                   omode, oj, tq, top, af, wf, wop, sf, sctx, 
-                                  xf, cop, kj, pp, np, nbp, dp, pf, pctx, pq, 
-                                  pj, pd, nq >>
+                                  xf, cop, kj, pp, np, nbp, nres, dp, pf, pctx, 
+                                  pq, pj, pd, nq >>
 
 sd_push(self) == /\ pc[self] = "sd_push"
                  /\ jkind' = [jkind EXCEPT ![yop[self]] = "syncdrain"]
@@ -3960,8 +3978,8 @@ sd_push(self) == /\ pc[self] = "sd_push"
                                  nextPoll, ppItem, h, dead, sti, rq, sq, sj, 
                                  ww, rsq, bown, bwk, bi, bcur, bw, jq, jj, jwk, 
                                  fj, dq, dj, yq, yop, tq, top, af, wf, wop, sf, 
-                                 sctx, xf, cop, kj, pp, np, nbp, dp, pf, pctx, 
-                                 pq, pj, pd, nq >>
+                                 sctx, xf, cop, kj, pp, np, nbp, nres, dp, pf, 
+                                 pctx, pq, pj, pd, nq >>
 
 z_sd_chk(self) == /\ pc[self] = "z_sd_chk"
                   /\ IF rv[self] = 9
@@ -3982,8 +4000,8 @@ z_sd_chk(self) == /\ pc[self] = "z_sd_chk"
                                   dead, sti, rq, sq, sj, ww, rsq, bown, bwk, 
                                   bi, bcur, bw, jq, jj, jwk, fj, dq, dj, oq, 
                                   oop, omode, oj, yq, yop, tq, top, af, wf, 
-                                  wop, sf, sctx, xf, cop, kj, pp, np, nbp, dp, 
-                                  pf, pctx, pq, pj, pd, nq >>
+                                  wop, sf, sctx, xf, cop, kj, pp, np, nbp, 
+                                  nres, dp, pf, pctx, pq, pj, pd, nq >>
 
 sd_idle(self) == /\ pc[self] = "sd_idle"
                  /\ qstate' = [qstate EXCEPT ![yq[self]] = "Idle"]
@@ -4008,7 +4026,7 @@ sd_idle(self) == /\ pc[self] = "sd_idle"
                                  rsq, bown, bwk, bi, bcur, bw, jq, jj, jwk, fj, 
                                  dq, dj, oq, oop, omode, oj, yq, yop, tq, top, 
                                  af, wf, wop, sf, sctx, xf, cop, kj, pp, np, 
-                                 nbp, dp, pf, pctx, pq, pj, pd, nq >>
+                                 nbp, nres, dp, pf, pctx, pq, pj, pd, nq >>
 
 sb_reg(self) == /\ pc[self] = "sb_reg"
                 /\ wakeBlocked' = [wakeBlocked EXCEPT ![yq[self]] = Append(wakeBlocked[yq[self]], yop[self])]
@@ -4029,7 +4047,7 @@ sb_reg(self) == /\ pc[self] = "sb_reg"
                                 rsq, bown, bwk, bi, bcur, bw, jq, jj, jwk, fj, 
                                 dq, dj, oq, oop, omode, oj, yq, yop, tq, top, 
                                 af, wf, wop, sf, sctx, xf, cop, kj, pp, np, 
-                                nbp, dp, pf, pctx, pq, pj, pd, nq >>
+                                nbp, nres, dp, pf, pctx, pq, pj, pd, nq >>
 
 sb_push(self) == /\ pc[self] = "sb_push"
                  /\ jkind' = [jkind EXCEPT ![yop[self]] = "syncbg"]
@@ -4058,7 +4076,7 @@ sb_push(self) == /\ pc[self] = "sb_push"
                                  rsq, bown, bwk, bi, bcur, bw, jq, jj, jwk, fj, 
                                  dq, dj, oq, oop, omode, oj, yq, yop, tq, top, 
                                  af, wf, wop, sf, sctx, xf, cop, kj, pp, np, 
-                                 nbp, dp, pf, pctx, pq, pj, pd, nq >>
+                                 nbp, nres, dp, pf, pctx, pq, pj, pd, nq >>
 
 sb_lock(self) == /\ pc[self] = "sb_lock"
                  /\ IF ready[yop[self]]
@@ -4089,8 +4107,8 @@ sb_lock(self) == /\ pc[self] = "sb_lock"
                                  dead, sti, rq, sq, sj, ww, rsq, bown, bwk, bi, 
                                  bcur, bw, jq, jj, jwk, fj, dq, dj, oq, oop, 
                                  omode, oj, yq, yop, tq, top, af, wf, wop, sf, 
-                                 sctx, xf, cop, kj, pp, np, nbp, dp, pf, pctx, 
-                                 pq, pj, pd, nq >>
+                                 sctx, xf, cop, kj, pp, np, nbp, nres, dp, pf, 
+                                 pctx, pq, pj, pd, nq >>
 
 sb_claim(self) == /\ pc[self] = "sb_claim"
                   /\ IF qstate[yq[self]] \in {"Pending", "Idle"}
@@ -4114,7 +4132,7 @@ sb_claim(self) == /\ pc[self] = "sb_claim"
                                   rsq, bown, bwk, bi, bcur, bw, jq, jj, jwk, 
                                   fj, dq, dj, oq, oop, omode, oj, yq, yop, tq, 
                                   top, af, wf, wop, sf, sctx, xf, cop, kj, pp, 
-                                  np, nbp, dp, pf, pctx, pq, pj, pd, nq >>
+                                  np, nbp, nres, dp, pf, pctx, pq, pj, pd, nq >>
 
 sb_chk(self) == /\ pc[self] = "sb_chk"
                 /\ IF ~ready[yop[self]]
@@ -4146,8 +4164,8 @@ sb_chk(self) == /\ pc[self] = "sb_chk"
                                 nextPoll, ppItem, h, dead, sti, rq, sq, sj, ww, 
                                 rsq, bown, bwk, bi, bcur, bw, jq, jj, jwk, fj, 
                                 dq, dj, yq, yop, tq, top, af, wf, wop, sf, 
-                                sctx, xf, cop, kj, pp, np, nbp, dp, pf, pctx, 
-                                pq, pj, pd, nq >>
+                                sctx, xf, cop, kj, pp, np, nbp, nres, dp, pf, 
+                                pctx, pq, pj, pd, nq >>
 
 sb_idle(self) == /\ pc[self] = "sb_idle"
                  /\ qstate' = [qstate EXCEPT ![yq[self]] = "Idle"]
@@ -4172,7 +4190,7 @@ sb_idle(self) == /\ pc[self] = "sb_idle"
                                  rsq, bown, bwk, bi, bcur, bw, jq, jj, jwk, fj, 
                                  dq, dj, oq, oop, omode, oj, yq, yop, tq, top, 
                                  af, wf, wop, sf, sctx, xf, cop, kj, pp, np, 
-                                 nbp, dp, pf, pctx, pq, pj, pd, nq >>
+                                 nbp, nres, dp, pf, pctx, pq, pj, pd, nq >>
 
 z_sb_chk(self) == /\ pc[self] = "z_sb_chk"
                   /\ IF rv[self] = 9
@@ -4202,7 +4220,7 @@ z_sb_chk(self) == /\ pc[self] = "z_sb_chk"
                                   ww, rsq, bown, bwk, bi, bcur, bw, jq, jj, 
                                   jwk, fj, dq, dj, oq, oop, omode, oj, tq, top, 
                                   af, wf, wop, sf, sctx, xf, cop, kj, pp, np, 
-                                  nbp, dp, pf, pctx, pq, pj, pd, nq >>
+                                  nbp, nres, dp, pf, pctx, pq, pj, pd, nq >>
 
 sb_wait(self) == /\ pc[self] = "sb_wait"
                  /\ cnotif[yop[self]]
@@ -4244,8 +4262,8 @@ sb_wait(self) == /\ pc[self] = "sb_wait"
                                  dead, sti, rq, sq, sj, ww, rsq, bown, bwk, bi, 
                                  bcur, bw, jq, jj, jwk, fj, dq, dj, oq, oop, 
                                  omode, oj, yq, yop, tq, top, af, wf, wop, sf, 
-                                 sctx, xf, cop, kj, pp, np, nbp, dp, pf, pctx, 
-                                 pq, pj, pd, nq >>
+                                 sctx, xf, cop, kj, pp, np, nbp, nres, dp, pf, 
+                                 pctx, pq, pj, pd, nq >>
 
 sb_fin(self) == /\ pc[self] = "sb_fin"
                 /\ wakeBlocked' = [wakeBlocked EXCEPT ![yq[self]] = SelectSeq(wakeBlocked[yq[self]], LAMBDA x : (x # yop[self] /\ CvAlive(x)) \/ (x = yop[self] /\ \E t \in Procs : yop[self] \in SeqSet(rwb[t])))]
@@ -4268,8 +4286,8 @@ sb_fin(self) == /\ pc[self] = "sb_fin"
                                 nextPoll, ppItem, h, dead, sti, rq, sq, sj, ww, 
                                 rsq, bown, bwk, bi, bcur, bw, jq, jj, jwk, fj, 
                                 dq, dj, oq, oop, omode, oj, tq, top, af, wf, 
-                                wop, sf, sctx, xf, cop, kj, pp, np, nbp, dp, 
-                                pf, pctx, pq, pj, pd, nq >>
+                                wop, sf, sctx, xf, cop, kj, pp, np, nbp, nres, 
+                                dp, pf, pctx, pq, pj, pd, nq >>
 
 sy_panic(self) == /\ pc[self] = "sy_panic"
                   /\ qstate' = [qstate EXCEPT ![yq[self]] = "Panicked"]
@@ -4293,7 +4311,7 @@ sy_panic(self) == /\ pc[self] = "sy_panic"
                                   ww, rsq, bown, bwk, bi, bcur, bw, jq, jj, 
                                   jwk, fj, dq, dj, oq, oop, omode, oj, tq, top, 
                                   af, wf, wop, sf, sctx, xf, cop, kj, pp, np, 
-                                  nbp, dp, pf, pctx, pq, pj, pd, nq >>
+                                  nbp, nres, dp, pf, pctx, pq, pj, pd, nq >>
 
 Sync(self) == sy_decide(self) \/ z_si_chk(self) \/ si_idle(self)
                  \/ z_si_ret(self) \/ sd_push(self) \/ z_sd_chk(self)
@@ -4355,8 +4373,8 @@ ts_decide(self) == /\ pc[self] = "ts_decide"
                                    h, dead, sti, rq, sq, sj, ww, rsq, bown, 
                                    bwk, bi, bcur, bw, fj, dq, dj, oq, oop, 
                                    omode, oj, yq, yop, af, wf, wop, sf, sctx, 
-                                   xf, cop, kj, pp, np, nbp, dp, pf, pctx, pq, 
-                                   pj, pd, nq >>
+                                   xf, cop, kj, pp, np, nbp, nres, dp, pf, 
+                                   pctx, pq, pj, pd, nq >>
 
 z_ts_chk(self) == /\ pc[self] = "z_ts_chk"
                   /\ IF rv[self] = 9
@@ -4377,8 +4395,8 @@ z_ts_chk(self) == /\ pc[self] = "z_ts_chk"
                                   dead, sti, rq, sq, sj, ww, rsq, bown, bwk, 
                                   bi, bcur, bw, jq, jj, jwk, fj, dq, dj, oq, 
                                   oop, omode, oj, yq, yop, tq, top, af, wf, 
-                                  wop, sf, sctx, xf, cop, kj, pp, np, nbp, dp, 
-                                  pf, pctx, pq, pj, pd, nq >>
+                                  wop, sf, sctx, xf, cop, kj, pp, np, nbp, 
+                                  nres, dp, pf, pctx, pq, pj, pd, nq >>
 
 ts_idle(self) == /\ pc[self] = "ts_idle"
                  /\ qstate' = [qstate EXCEPT ![tq[self]] = "Idle"]
@@ -4403,7 +4421,7 @@ ts_idle(self) == /\ pc[self] = "ts_idle"
                                  rsq, bown, bwk, bi, bcur, bw, jq, jj, jwk, fj, 
                                  dq, dj, oq, oop, omode, oj, yq, yop, tq, top, 
                                  af, wf, wop, sf, sctx, xf, cop, kj, pp, np, 
-                                 nbp, dp, pf, pctx, pq, pj, pd, nq >>
+                                 nbp, nres, dp, pf, pctx, pq, pj, pd, nq >>
 
 z_ts_ret(self) == /\ pc[self] = "z_ts_ret"
                   /\ rv' = [rv EXCEPT ![self] = 0]
@@ -4426,8 +4444,8 @@ z_ts_ret(self) == /\ pc[self] = "z_ts_ret"
                                   sti, rq, sq, sj, ww, rsq, bown, bwk, bi, 
                                   bcur, bw, jq, jj, jwk, fj, dq, dj, oq, oop, 
                                   omode, oj, yq, yop, af, wf, wop, sf, sctx, 
-                                  xf, cop, kj, pp, np, nbp, dp, pf, pctx, pq, 
-                                  pj, pd, nq >>
+                                  xf, cop, kj, pp, np, nbp, nres, dp, pf, pctx, 
+                                  pq, pj, pd, nq >>
 
 ts_panic(self) == /\ pc[self] = "ts_panic"
                   /\ qstate' = [qstate EXCEPT ![tq[self]] = "Panicked"]
@@ -4451,7 +4469,7 @@ ts_panic(self) == /\ pc[self] = "ts_panic"
                                   ww, rsq, bown, bwk, bi, bcur, bw, jq, jj, 
                                   jwk, fj, dq, dj, oq, oop, omode, oj, yq, yop, 
                                   af, wf, wop, sf, sctx, xf, cop, kj, pp, np, 
-                                  nbp, dp, pf, pctx, pq, pj, pd, nq >>
+                                  nbp, nres, dp, pf, pctx, pq, pj, pd, nq >>
 
 TrySync(self) == ts_decide(self) \/ z_ts_chk(self) \/ ts_idle(self)
                     \/ z_ts_ret(self) \/ ts_panic(self)
@@ -4498,7 +4516,7 @@ z_aw_poll(self) == /\ pc[self] = "z_aw_poll"
                                    ww, rsq, bown, bwk, bi, bcur, bw, jq, jj, 
                                    jwk, fj, dq, dj, oq, oop, omode, oj, yq, 
                                    yop, tq, top, af, wf, wop, xf, cop, kj, pp, 
-                                   np, nbp, dp, nq >>
+                                   np, nbp, nres, dp, nq >>
 
 z_aw_after(self) == /\ pc[self] = "z_aw_after"
                     /\ IF rv[self] = 5
@@ -4527,8 +4545,8 @@ z_aw_after(self) == /\ pc[self] = "z_aw_after"
                                     sti, rq, sq, sj, ww, rsq, bown, bwk, bi, 
                                     bcur, bw, jq, jj, jwk, fj, dq, dj, oq, oop, 
                                     omode, oj, yq, yop, tq, top, wf, wop, sf, 
-                                    sctx, xf, cop, kj, pp, np, nbp, dp, pf, 
-                                    pctx, pq, pj, pd, nq >>
+                                    sctx, xf, cop, kj, pp, np, nbp, nres, dp, 
+                                    pf, pctx, pq, pj, pd, nq >>
 
 aw_park(self) == /\ pc[self] = "aw_park"
                  /\ parkTok[self]
@@ -4549,7 +4567,8 @@ aw_park(self) == /\ pc[self] = "aw_park"
                                  sj, ww, rsq, bown, bwk, bi, bcur, bw, jq, jj, 
                                  jwk, fj, dq, dj, oq, oop, omode, oj, yq, yop, 
                                  tq, top, af, wf, wop, sf, sctx, xf, cop, kj, 
-                                 pp, np, nbp, dp, pf, pctx, pq, pj, pd, nq >>
+                                 pp, np, nbp, nres, dp, pf, pctx, pq, pj, pd, 
+                                 nq >>
 
 Await(self) == z_aw_poll(self) \/ z_aw_after(self) \/ aw_park(self)
 
@@ -4595,8 +4614,8 @@ fs_take(self) == /\ pc[self] = "fs_take"
                                  nextPoll, ppItem, dead, sti, rq, sq, sj, ww, 
                                  rsq, bown, bwk, bi, bcur, bw, jq, jj, jwk, fj, 
                                  dq, dj, oq, oop, omode, oj, tq, top, af, sf, 
-                                 sctx, xf, cop, kj, pp, np, nbp, dp, pf, pctx, 
-                                 pq, pj, pd, nq >>
+                                 sctx, xf, cop, kj, pp, np, nbp, nres, dp, pf, 
+                                 pctx, pq, pj, pd, nq >>
 
 z_fs_after(self) == /\ pc[self] = "z_fs_after"
                     /\ IF rv[self] = 0
@@ -4623,8 +4642,8 @@ z_fs_after(self) == /\ pc[self] = "z_fs_after"
                                     sti, rq, sq, sj, ww, rsq, bown, bwk, bi, 
                                     bcur, bw, jq, jj, jwk, fj, dq, dj, oq, oop, 
                                     omode, oj, yq, yop, tq, top, af, sf, sctx, 
-                                    xf, cop, kj, pp, np, nbp, dp, pf, pctx, pq, 
-                                    pj, pd, nq >>
+                                    xf, cop, kj, pp, np, nbp, nres, dp, pf, 
+                                    pctx, pq, pj, pd, nq >>
 
 WaitSync(self) == fs_take(self) \/ z_fs_after(self)
 
@@ -4699,8 +4718,8 @@ z_ps(self) == /\ pc[self] = "z_ps"
                               inWaker, pollFn, chuteFn, pwTaken, nextPoll, 
                               ppItem, h, dead, sti, rq, sq, sj, ww, jq, jj, 
                               jwk, fj, dq, dj, oq, oop, omode, oj, yq, yop, tq, 
-                              top, af, wf, wop, xf, cop, kj, pp, np, nbp, dp, 
-                              nq >>
+                              top, af, wf, wop, xf, cop, kj, pp, np, nbp, nres, 
+                              dp, nq >>
 
 z_ps_q(self) == /\ pc[self] = "z_ps_q"
                 /\ IF rv[self] \in {2, 4}
@@ -4754,8 +4773,8 @@ z_ps_q(self) == /\ pc[self] = "z_ps_q"
                                 pollFn, chuteFn, pwTaken, nextPoll, ppItem, 
                                 dead, sti, rq, sq, sj, ww, jq, jj, jwk, fj, dq, 
                                 dj, oq, oop, omode, oj, yq, yop, tq, top, af, 
-                                wf, wop, xf, cop, kj, pp, np, nbp, dp, pf, 
-                                pctx, pq, pj, pd, nq >>
+                                wf, wop, xf, cop, kj, pp, np, nbp, nres, dp, 
+                                pf, pctx, pq, pj, pd, nq >>
 
 z_ps_f(self) == /\ pc[self] = "z_ps_f"
                 /\ IF rv[self] = 5
@@ -4806,8 +4825,8 @@ z_ps_f(self) == /\ pc[self] = "z_ps_f"
                                 dead, sti, rq, sq, sj, rsq, bown, bwk, bi, 
                                 bcur, bw, jq, jj, jwk, fj, dq, dj, oq, oop, 
                                 omode, oj, yq, yop, tq, top, af, wf, wop, xf, 
-                                cop, kj, pp, np, nbp, dp, pf, pctx, pq, pj, pd, 
-                                nq >>
+                                cop, kj, pp, np, nbp, nres, dp, pf, pctx, pq, 
+                                pj, pd, nq >>
 
 z_ps_s(self) == /\ pc[self] = "z_ps_s"
                 /\ /\ pctx' = [pctx EXCEPT ![self] = sctx[self]]
@@ -4839,7 +4858,7 @@ z_ps_s(self) == /\ pc[self] = "z_ps_s"
                                 rsq, bown, bwk, bi, bcur, bw, jq, jj, jwk, fj, 
                                 dq, dj, oq, oop, omode, oj, yq, yop, tq, top, 
                                 af, wf, wop, sf, sctx, xf, cop, kj, pp, np, 
-                                nbp, dp, nq >>
+                                nbp, nres, dp, nq >>
 
 z_ps_s2(self) == /\ pc[self] = "z_ps_s2"
                  /\ IF rv[self] = 5
@@ -4869,7 +4888,7 @@ z_ps_s2(self) == /\ pc[self] = "z_ps_s2"
                                  ww, rsq, bown, bwk, bi, bcur, bw, jq, jj, jwk, 
                                  fj, dq, dj, oq, oop, omode, oj, yq, yop, tq, 
                                  top, af, wf, wop, xf, cop, kj, pp, np, nbp, 
-                                 dp, pf, pctx, pq, pj, pd, nq >>
+                                 nres, dp, pf, pctx, pq, pj, pd, nq >>
 
 z_ps_panic(self) == /\ pc[self] = "z_ps_panic"
                     /\ rv' = [rv EXCEPT ![self] = 2]
@@ -4893,8 +4912,8 @@ z_ps_panic(self) == /\ pc[self] = "z_ps_panic"
                                     rq, sq, sj, ww, rsq, bown, bwk, bi, bcur, 
                                     bw, jq, jj, jwk, fj, dq, dj, oq, oop, 
                                     omode, oj, yq, yop, tq, top, af, wf, wop, 
-                                    xf, cop, kj, pp, np, nbp, dp, pf, pctx, pq, 
-                                    pj, pd, nq >>
+                                    xf, cop, kj, pp, np, nbp, nres, dp, pf, 
+                                    pctx, pq, pj, pd, nq >>
 
 PollSync(self) == z_ps(self) \/ z_ps_q(self) \/ z_ps_f(self)
                      \/ z_ps_s(self) \/ z_ps_s2(self) \/ z_ps_panic(self)
@@ -4937,8 +4956,8 @@ z_df(self) == /\ pc[self] = "z_df"
                               ppItem, dead, sti, rq, sq, sj, rsq, bown, bwk, 
                               bi, bcur, bw, jq, jj, jwk, fj, dq, dj, oq, oop, 
                               omode, oj, yq, yop, tq, top, af, wf, wop, sf, 
-                              sctx, cop, kj, pp, np, nbp, dp, pf, pctx, pq, pj, 
-                              pd, nq >>
+                              sctx, cop, kj, pp, np, nbp, nres, dp, pf, pctx, 
+                              pq, pj, pd, nq >>
 
 z_df2(self) == /\ pc[self] = "z_df2"
                /\ rv' = [rv EXCEPT ![self] = 0]
@@ -4959,8 +4978,8 @@ z_df2(self) == /\ pc[self] = "z_df2"
                                nextPoll, ppItem, h, dead, sti, rq, sq, sj, ww, 
                                rsq, bown, bwk, bi, bcur, bw, jq, jj, jwk, fj, 
                                dq, dj, oq, oop, omode, oj, yq, yop, tq, top, 
-                               af, wf, wop, sf, sctx, cop, kj, pp, np, nbp, dp, 
-                               pf, pctx, pq, pj, pd, nq >>
+                               af, wf, wop, sf, sctx, cop, kj, pp, np, nbp, 
+                               nres, dp, pf, pctx, pq, pj, pd, nq >>
 
 DropFuture(self) == z_df(self) \/ z_df2(self)
 
@@ -4992,7 +5011,7 @@ z_pcr1(self) == /\ pc[self] = "z_pcr1"
                                 rsq, bown, bwk, bi, bcur, bw, jq, jj, jwk, fj, 
                                 dq, dj, oq, oop, omode, oj, yq, yop, tq, top, 
                                 af, wf, wop, sf, sctx, xf, cop, kj, pp, np, 
-                                nbp, dp, pf, pctx, pq, pj, pd, nq >>
+                                nbp, nres, dp, pf, pctx, pq, pj, pd, nq >>
 
 z_pcr2(self) == /\ pc[self] = "z_pcr2"
                 /\ strong' = [strong EXCEPT ![O(cop[self])] = strong[O(cop[self])] - 1]
@@ -5018,8 +5037,8 @@ z_pcr2(self) == /\ pc[self] = "z_pcr2"
                                 ppItem, h, dead, sti, rq, sq, sj, ww, rsq, 
                                 bown, bwk, bi, bcur, bw, jq, jj, jwk, fj, dq, 
                                 dj, oq, oop, omode, oj, tq, top, af, wf, wop, 
-                                sf, sctx, xf, cop, kj, pp, np, nbp, dp, pf, 
-                                pctx, pq, pj, pd, nq >>
+                                sf, sctx, xf, cop, kj, pp, np, nbp, nres, dp, 
+                                pf, pctx, pq, pj, pd, nq >>
 
 z_pcr3(self) == /\ pc[self] = "z_pcr3"
                 /\ pc' = [pc EXCEPT ![self] = Head(stack[self]).pc]
@@ -5039,8 +5058,8 @@ z_pcr3(self) == /\ pc[self] = "z_pcr3"
                                 nextPoll, ppItem, h, dead, sti, rq, sq, sj, ww, 
                                 rsq, bown, bwk, bi, bcur, bw, jq, jj, jwk, fj, 
                                 dq, dj, oq, oop, omode, oj, yq, yop, tq, top, 
-                                af, wf, wop, sf, sctx, xf, kj, pp, np, nbp, dp, 
-                                pf, pctx, pq, pj, pd, nq >>
+                                af, wf, wop, sf, sctx, xf, kj, pp, np, nbp, 
+                                nres, dp, pf, pctx, pq, pj, pd, nq >>
 
 PipeCreate(self) == z_pcr1(self) \/ z_pcr2(self) \/ z_pcr3(self)
 
@@ -5075,8 +5094,8 @@ pp_fn(self) == /\ pc[self] = "pp_fn"
                                ppItem, h, dead, sti, rq, sq, sj, ww, rsq, bown, 
                                bwk, bi, bcur, bw, jq, jj, jwk, fj, dq, dj, oq, 
                                oop, omode, oj, yq, yop, tq, top, af, wf, wop, 
-                               sf, sctx, xf, cop, np, nbp, dp, pf, pctx, pq, 
-                               pj, pd, nq >>
+                               sf, sctx, xf, cop, np, nbp, nres, dp, pf, pctx, 
+                               pq, pj, pd, nq >>
 
 pp_bp(self) == /\ pc[self] = "pp_bp"
                /\ IF Len(ppPending[pp[self]]) >= ppDepth[pp[self]]
@@ -5105,8 +5124,8 @@ pp_bp(self) == /\ pc[self] = "pp_bp"
                                dead, sti, rq, sq, sj, ww, rsq, bown, bwk, bi, 
                                bcur, bw, jq, jj, jwk, fj, dq, dj, oq, oop, 
                                omode, oj, yq, yop, tq, top, af, wf, wop, sf, 
-                               sctx, xf, cop, np, nbp, dp, pf, pctx, pq, pj, 
-                               pd, nq >>
+                               sctx, xf, cop, np, nbp, nres, dp, pf, pctx, pq, 
+                               pj, pd, nq >>
 
 pp_clear(self) == /\ pc[self] = "pp_clear"
                   /\ IF FixD5 /\ ppClosed[pp[self]]
@@ -5131,8 +5150,8 @@ pp_clear(self) == /\ pc[self] = "pp_clear"
                                   sq, sj, ww, rsq, bown, bwk, bi, bcur, bw, jq, 
                                   jj, jwk, fj, dq, dj, oq, oop, omode, oj, yq, 
                                   yop, tq, top, af, wf, wop, sf, sctx, xf, cop, 
-                                  kj, pp, np, nbp, dp, pf, pctx, pq, pj, pd, 
-                                  nq >>
+                                  kj, pp, np, nbp, nres, dp, pf, pctx, pq, pj, 
+                                  pd, nq >>
 
 pp_in(self) == /\ pc[self] = "pp_in"
                /\ IF inItems[pp[self]] # << >>
@@ -5160,8 +5179,8 @@ pp_in(self) == /\ pc[self] = "pp_in"
                                stack, dead, sti, rq, sq, sj, ww, rsq, bown, 
                                bwk, bi, bcur, bw, jq, jj, jwk, fj, dq, dj, oq, 
                                oop, omode, oj, yq, yop, tq, top, af, wf, wop, 
-                               sf, sctx, xf, cop, kj, pp, np, nbp, dp, pf, 
-                               pctx, pq, pj, pd, nq >>
+                               sf, sctx, xf, cop, kj, pp, np, nbp, nres, dp, 
+                               pf, pctx, pq, pj, pd, nq >>
 
 pp_in2(self) == /\ pc[self] = "pp_in2"
                 /\ inWaker' = [inWaker EXCEPT ![pp[self]] = PW(kj[self])]
@@ -5190,8 +5209,8 @@ pp_in2(self) == /\ pc[self] = "pp_in2"
                                 dead, sti, rq, sq, sj, ww, rsq, bown, bwk, bi, 
                                 bcur, bw, jq, jj, jwk, fj, dq, dj, oq, oop, 
                                 omode, oj, yq, yop, tq, top, af, wf, wop, sf, 
-                                sctx, xf, cop, kj, pp, np, nbp, dp, pf, pctx, 
-                                pq, pj, pd, nq >>
+                                sctx, xf, cop, kj, pp, np, nbp, nres, dp, pf, 
+                                pctx, pq, pj, pd, nq >>
 
 pp_reg(self) == /\ pc[self] = "pp_reg"
                 /\ IF FixD5 /\ ppClosed[pp[self]]
@@ -5219,8 +5238,8 @@ pp_reg(self) == /\ pc[self] = "pp_reg"
                                 dead, sti, rq, sq, sj, ww, rsq, bown, bwk, bi, 
                                 bcur, bw, jq, jj, jwk, fj, dq, dj, oq, oop, 
                                 omode, oj, yq, yop, tq, top, af, wf, wop, sf, 
-                                sctx, xf, cop, np, nbp, dp, pf, pctx, pq, pj, 
-                                pd, nq >>
+                                sctx, xf, cop, np, nbp, nres, dp, pf, pctx, pq, 
+                                pj, pd, nq >>
 
 pp_end(self) == /\ pc[self] = "pp_end"
                 /\ ppClosed' = [ppClosed EXCEPT ![pp[self]] = TRUE]
@@ -5242,8 +5261,8 @@ pp_end(self) == /\ pc[self] = "pp_end"
                                 rq, sq, sj, ww, rsq, bown, bwk, bi, bcur, bw, 
                                 jq, jj, jwk, fj, dq, dj, oq, oop, omode, oj, 
                                 yq, yop, tq, top, af, wf, wop, sf, sctx, xf, 
-                                cop, kj, pp, np, nbp, dp, pf, pctx, pq, pj, pd, 
-                                nq >>
+                                cop, kj, pp, np, nbp, nres, dp, pf, pctx, pq, 
+                                pj, pd, nq >>
 
 pp_closed(self) == /\ pc[self] = "pp_closed"
                    /\ parkTok' = Unpark(parkTok, TaskOf(ppNotify[pp[self]]))
@@ -5266,7 +5285,7 @@ pp_closed(self) == /\ pc[self] = "pp_closed"
                                    bwk, bi, bcur, bw, jq, jj, jwk, fj, dq, dj, 
                                    oq, oop, omode, oj, yq, yop, tq, top, af, 
                                    wf, wop, sf, sctx, xf, cop, kj, pp, np, nbp, 
-                                   dp, pf, pctx, pq, pj, pd, nq >>
+                                   nres, dp, pf, pctx, pq, pj, pd, nq >>
 
 pp_proc(self) == /\ pc[self] = "pp_proc"
                  /\ h' = ObsProcStart(h, self, pp[self], ppItem[kj[self]])
@@ -5286,8 +5305,8 @@ pp_proc(self) == /\ pc[self] = "pp_proc"
                                  dead, sti, rq, sq, sj, ww, rsq, bown, bwk, bi, 
                                  bcur, bw, jq, jj, jwk, fj, dq, dj, oq, oop, 
                                  omode, oj, yq, yop, tq, top, af, wf, wop, sf, 
-                                 sctx, xf, cop, kj, pp, np, nbp, dp, pf, pctx, 
-                                 pq, pj, pd, nq >>
+                                 sctx, xf, cop, kj, pp, np, nbp, nres, dp, pf, 
+                                 pctx, pq, pj, pd, nq >>
 
 pp_body(self) == /\ pc[self] = "pp_body"
                  /\ h' = ObsProcEnd(h, self, pp[self], ppItem[kj[self]])
@@ -5309,8 +5328,8 @@ pp_body(self) == /\ pc[self] = "pp_body"
                                  dead, sti, rq, sq, sj, ww, rsq, bown, bwk, bi, 
                                  bcur, bw, jq, jj, jwk, fj, dq, dj, oq, oop, 
                                  omode, oj, yq, yop, tq, top, af, wf, wop, sf, 
-                                 sctx, xf, cop, kj, pp, np, nbp, dp, pf, pctx, 
-                                 pq, pj, pd, nq >>
+                                 sctx, xf, cop, kj, pp, np, nbp, nres, dp, pf, 
+                                 pctx, pq, pj, pd, nq >>
 
 pp_push(self) == /\ pc[self] = "pp_push"
                  /\ ppPending' = [ppPending EXCEPT ![pp[self]] = Append(ppPending[pp[self]], 10 * ppItem[kj[self]])]
@@ -5331,8 +5350,8 @@ pp_push(self) == /\ pc[self] = "pp_push"
                                  stack, dead, sti, rq, sq, sj, ww, rsq, bown, 
                                  bwk, bi, bcur, bw, jq, jj, jwk, fj, dq, dj, 
                                  oq, oop, omode, oj, yq, yop, tq, top, af, wf, 
-                                 wop, sf, sctx, xf, cop, kj, pp, np, nbp, dp, 
-                                 pf, pctx, pq, pj, pd, nq >>
+                                 wop, sf, sctx, xf, cop, kj, pp, np, nbp, nres, 
+                                 dp, pf, pctx, pq, pj, pd, nq >>
 
 pi_in(self) == /\ pc[self] = "pi_in"
                /\ IF inItems[pp[self]] # << >>
@@ -5360,8 +5379,8 @@ pi_in(self) == /\ pc[self] = "pi_in"
                                stack, dead, sti, rq, sq, sj, ww, rsq, bown, 
                                bwk, bi, bcur, bw, jq, jj, jwk, fj, dq, dj, oq, 
                                oop, omode, oj, yq, yop, tq, top, af, wf, wop, 
-                               sf, sctx, xf, cop, kj, pp, np, nbp, dp, pf, 
-                               pctx, pq, pj, pd, nq >>
+                               sf, sctx, xf, cop, kj, pp, np, nbp, nres, dp, 
+                               pf, pctx, pq, pj, pd, nq >>
 
 pi_in2(self) == /\ pc[self] = "pi_in2"
                 /\ inWaker' = [inWaker EXCEPT ![pp[self]] = PW(kj[self])]
@@ -5395,7 +5414,8 @@ pi_in2(self) == /\ pc[self] = "pi_in2"
                                 rq, sq, sj, ww, rsq, bown, bwk, bi, bcur, bw, 
                                 jq, jj, jwk, fj, dq, dj, oq, oop, omode, oj, 
                                 yq, yop, tq, top, af, wf, wop, sf, sctx, xf, 
-                                cop, np, nbp, dp, pf, pctx, pq, pj, pd, nq >>
+                                cop, np, nbp, nres, dp, pf, pctx, pq, pj, pd, 
+                                nq >>
 
 pp_dealloc(self) == /\ pc[self] = "pp_dealloc"
                     /\ IF pollFn[pp[self]]
@@ -5424,7 +5444,8 @@ pp_dealloc(self) == /\ pc[self] = "pp_dealloc"
                                     ww, rsq, bown, bwk, bi, bcur, bw, jq, jj, 
                                     jwk, fj, dq, dj, oq, oop, omode, oj, yq, 
                                     yop, tq, top, af, wf, wop, sf, sctx, xf, 
-                                    cop, np, nbp, dp, pf, pctx, pq, pj, pd, nq >>
+                                    cop, np, nbp, nres, dp, pf, pctx, pq, pj, 
+                                    pd, nq >>
 
 PipePoll(self) == pp_fn(self) \/ pp_bp(self) \/ pp_clear(self)
                      \/ pp_in(self) \/ pp_in2(self) \/ pp_reg(self)
@@ -5436,17 +5457,17 @@ cn_poll(self) == /\ pc[self] = "cn_poll"
                  /\ nbp' = [nbp EXCEPT ![self] = ppBP[np[self]]]
                  /\ ppBP' = [ppBP EXCEPT ![np[self]] = NoW]
                  /\ IF ppPending[np[self]] # << >>
-                       THEN /\ h' = ObsOut(h, np[self], Head(ppPending[np[self]]))
+                       THEN /\ nres' = [nres EXCEPT ![self] = Head(ppPending[np[self]])]
                             /\ ppPending' = [ppPending EXCEPT ![np[self]] = Tail(ppPending[np[self]])]
                             /\ rv' = [rv EXCEPT ![self] = 0]
                             /\ UNCHANGED ppNotify
                        ELSE /\ IF ppClosed[np[self]]
-                                  THEN /\ h' = ObsOutEnd(h, np[self])
+                                  THEN /\ nres' = [nres EXCEPT ![self] = 0 - 1]
                                        /\ rv' = [rv EXCEPT ![self] = 0]
                                        /\ UNCHANGED ppNotify
                                   ELSE /\ ppNotify' = [ppNotify EXCEPT ![np[self]] = TASK(self)]
                                        /\ rv' = [rv EXCEPT ![self] = 5]
-                                       /\ h' = h
+                                       /\ nres' = nres
                             /\ UNCHANGED ppPending
                  /\ IF IsLocking(nbp'[self])
                        THEN /\ /\ stack' = [stack EXCEPT ![self] = << [ procedure |->  "Wake",
@@ -5467,7 +5488,7 @@ cn_poll(self) == /\ pc[self] = "cn_poll"
                                  dnState, dnWaker, parkTok, rwb, rneed, dsl, 
                                  atomic, strong, ppClosed, ppNC, ppDepth, 
                                  ppAlive, ppHeld, inItems, inClosed, inWaker, 
-                                 pollFn, chuteFn, pwTaken, nextPoll, ppItem, 
+                                 pollFn, chuteFn, pwTaken, nextPoll, ppItem, h, 
                                  dead, sti, rq, sq, sj, rsq, bown, bwk, bi, 
                                  bcur, bw, jq, jj, jwk, fj, dq, dj, oq, oop, 
                                  omode, oj, yq, yop, tq, top, af, wf, wop, sf, 
@@ -5477,9 +5498,11 @@ cn_poll(self) == /\ pc[self] = "cn_poll"
 z_cn_after(self) == /\ pc[self] = "z_cn_after"
                     /\ IF rv[self] = 5
                           THEN /\ pc' = [pc EXCEPT ![self] = "cn_park"]
-                               /\ UNCHANGED << stack, np, nbp >>
-                          ELSE /\ pc' = [pc EXCEPT ![self] = Head(stack[self]).pc]
+                               /\ UNCHANGED << h, stack, np, nbp, nres >>
+                          ELSE /\ h' = (IF nres[self] < 0 THEN ObsOutEnd(h, np[self]) ELSE ObsOut(h, np[self], nres[self]))
+                               /\ pc' = [pc EXCEPT ![self] = Head(stack[self]).pc]
                                /\ nbp' = [nbp EXCEPT ![self] = Head(stack[self]).nbp]
+                               /\ nres' = [nres EXCEPT ![self] = Head(stack[self]).nres]
                                /\ np' = [np EXCEPT ![self] = Head(stack[self]).np]
                                /\ stack' = [stack EXCEPT ![self] = Tail(stack[self])]
                     /\ UNCHANGED << qstate, qpoll, jobs, wakeBlocked, schedule, 
@@ -5494,12 +5517,12 @@ z_cn_after(self) == /\ pc[self] = "z_cn_after"
                                     strong, ppPending, ppClosed, ppNotify, 
                                     ppNC, ppBP, ppDepth, ppAlive, ppHeld, 
                                     inItems, inClosed, inWaker, pollFn, 
-                                    chuteFn, pwTaken, nextPoll, ppItem, h, 
-                                    dead, sti, rq, sq, sj, ww, rsq, bown, bwk, 
-                                    bi, bcur, bw, jq, jj, jwk, fj, dq, dj, oq, 
-                                    oop, omode, oj, yq, yop, tq, top, af, wf, 
-                                    wop, sf, sctx, xf, cop, kj, pp, dp, pf, 
-                                    pctx, pq, pj, pd, nq >>
+                                    chuteFn, pwTaken, nextPoll, ppItem, dead, 
+                                    sti, rq, sq, sj, ww, rsq, bown, bwk, bi, 
+                                    bcur, bw, jq, jj, jwk, fj, dq, dj, oq, oop, 
+                                    omode, oj, yq, yop, tq, top, af, wf, wop, 
+                                    sf, sctx, xf, cop, kj, pp, dp, pf, pctx, 
+                                    pq, pj, pd, nq >>
 
 cn_park(self) == /\ pc[self] = "cn_park"
                  /\ parkTok[self]
@@ -5520,7 +5543,8 @@ cn_park(self) == /\ pc[self] = "cn_park"
                                  sj, ww, rsq, bown, bwk, bi, bcur, bw, jq, jj, 
                                  jwk, fj, dq, dj, oq, oop, omode, oj, yq, yop, 
                                  tq, top, af, wf, wop, sf, sctx, xf, cop, kj, 
-                                 pp, np, nbp, dp, pf, pctx, pq, pj, pd, nq >>
+                                 pp, np, nbp, nres, dp, pf, pctx, pq, pj, pd, 
+                                 nq >>
 
 PipeNext(self) == cn_poll(self) \/ z_cn_after(self) \/ cn_park(self)
 
@@ -5551,8 +5575,8 @@ ps_drop(self) == /\ pc[self] = "ps_drop"
                                  dead, sti, rq, sq, sj, rsq, bown, bwk, bi, 
                                  bcur, bw, jq, jj, jwk, fj, dq, dj, oq, oop, 
                                  omode, oj, yq, yop, tq, top, af, wf, wop, sf, 
-                                 sctx, xf, cop, kj, pp, np, nbp, dp, pf, pctx, 
-                                 pq, pj, pd, nq >>
+                                 sctx, xf, cop, kj, pp, np, nbp, nres, dp, pf, 
+                                 pctx, pq, pj, pd, nq >>
 
 z_ps2(self) == /\ pc[self] = "z_ps2"
                /\ ppNC' = [ppNC EXCEPT ![dp[self]] = NoW]
@@ -5579,7 +5603,8 @@ z_ps2(self) == /\ pc[self] = "z_ps2"
                                dead, sti, rq, ww, rsq, bown, bwk, bi, bcur, bw, 
                                jq, jj, jwk, fj, dq, dj, oq, oop, omode, oj, yq, 
                                yop, tq, top, af, wf, wop, sf, sctx, xf, cop, 
-                               kj, pp, np, nbp, dp, pf, pctx, pq, pj, pd, nq >>
+                               kj, pp, np, nbp, nres, dp, pf, pctx, pq, pj, pd, 
+                               nq >>
 
 z_ps3(self) == /\ pc[self] = "z_ps3"
                /\ atomic' = [atomic EXCEPT ![self] = FALSE]
@@ -5600,8 +5625,8 @@ z_ps3(self) == /\ pc[self] = "z_ps3"
                                stack, dead, sti, rq, sq, sj, ww, rsq, bown, 
                                bwk, bi, bcur, bw, jq, jj, jwk, fj, dq, dj, oq, 
                                oop, omode, oj, yq, yop, tq, top, af, wf, wop, 
-                               sf, sctx, xf, cop, kj, pp, np, nbp, dp, pf, 
-                               pctx, pq, pj, pd, nq >>
+                               sf, sctx, xf, cop, kj, pp, np, nbp, nres, dp, 
+                               pf, pctx, pq, pj, pd, nq >>
 
 z_ps_gc(self) == /\ pc[self] = "z_ps_gc"
                  /\ IF pollFn[dp[self]] /\ ~CtxAlive(dp[self])
@@ -5627,7 +5652,7 @@ z_ps_gc(self) == /\ pc[self] = "z_ps_gc"
                                  sj, ww, rsq, bown, bwk, bi, bcur, bw, jq, jj, 
                                  jwk, fj, dq, dj, oq, oop, omode, oj, yq, yop, 
                                  tq, top, af, wf, wop, sf, sctx, xf, cop, kj, 
-                                 pp, np, nbp, pf, pctx, pq, pj, pd, nq >>
+                                 pp, np, nbp, nres, pf, pctx, pq, pj, pd, nq >>
 
 PipeDrop(self) == ps_drop(self) \/ z_ps2(self) \/ z_ps3(self)
                      \/ z_ps_gc(self)
@@ -5650,7 +5675,8 @@ ds_max(self) == /\ pc[self] = "ds_max"
                                 sj, ww, rsq, bown, bwk, bi, bcur, bw, jq, jj, 
                                 jwk, fj, dq, dj, oq, oop, omode, oj, yq, yop, 
                                 tq, top, af, wf, wop, sf, sctx, xf, cop, kj, 
-                                pp, np, nbp, dp, pf, pctx, pq, pj, pd, nq >>
+                                pp, np, nbp, nres, dp, pf, pctx, pq, pj, pd, 
+                                nq >>
 
 ds_pop(self) == /\ pc[self] = "ds_pop"
                 /\ thrHeld = ""
@@ -5677,8 +5703,8 @@ ds_pop(self) == /\ pc[self] = "ds_pop"
                                 dead, sti, rq, sq, sj, ww, rsq, bown, bwk, bi, 
                                 bcur, bw, jq, jj, jwk, fj, dq, dj, oq, oop, 
                                 omode, oj, yq, yop, tq, top, af, wf, wop, sf, 
-                                sctx, xf, cop, kj, pp, np, nbp, dp, pf, pctx, 
-                                pq, pj, pd, nq >>
+                                sctx, xf, cop, kj, pp, np, nbp, nres, dp, pf, 
+                                pctx, pq, pj, pd, nq >>
 
 ds_join(self) == /\ pc[self] = "ds_join"
                  /\ pfin[Head(dsl[self])]
@@ -5705,7 +5731,7 @@ ds_join(self) == /\ pc[self] = "ds_join"
                                  rsq, bown, bwk, bi, bcur, bw, jq, jj, jwk, fj, 
                                  dq, dj, oq, oop, omode, oj, yq, yop, tq, top, 
                                  af, wf, wop, sf, sctx, xf, cop, kj, pp, np, 
-                                 nbp, dp, pf, pctx, pq, pj, pd, nq >>
+                                 nbp, nres, dp, pf, pctx, pq, pj, pd, nq >>
 
 Despawn(self) == ds_max(self) \/ ds_pop(self) \/ ds_join(self)
 
@@ -5784,7 +5810,7 @@ pf_decide(self) == /\ pc[self] = "pf_decide"
                                    bown, bwk, bi, bcur, bw, jq, jj, jwk, fj, 
                                    dq, dj, oq, oop, omode, oj, yq, yop, tq, 
                                    top, af, wf, wop, sf, sctx, xf, cop, kj, pp, 
-                                   np, nbp, dp, nq >>
+                                   np, nbp, nres, dp, nq >>
 
 dq_res(self) == /\ pc[self] = "dq_res"
                 /\ IF fres[pf[self]] = "some"
@@ -5812,7 +5838,8 @@ dq_res(self) == /\ pc[self] = "dq_res"
                                 sj, ww, rsq, bown, bwk, bi, bcur, bw, jq, jj, 
                                 jwk, fj, dq, dj, oq, oop, omode, oj, yq, yop, 
                                 tq, top, af, wf, wop, sf, sctx, xf, cop, kj, 
-                                pp, np, nbp, dp, pf, pctx, pq, pj, pd, nq >>
+                                pp, np, nbp, nres, dp, pf, pctx, pq, pj, pd, 
+                                nq >>
 
 dq_deq(self) == /\ pc[self] = "dq_deq"
                 /\ IF qstate[pq[self]] \in Waiting \/ jobs[pq[self]] = << >>
@@ -5847,8 +5874,8 @@ dq_deq(self) == /\ pc[self] = "dq_deq"
                                 ppItem, h, dead, sti, rq, sq, sj, ww, rsq, 
                                 bown, bwk, bi, bcur, bw, fj, dq, dj, oq, oop, 
                                 omode, oj, yq, yop, tq, top, af, wf, wop, sf, 
-                                sctx, xf, cop, kj, pp, np, nbp, dp, pf, pctx, 
-                                pq, nq >>
+                                sctx, xf, cop, kj, pp, np, nbp, nres, dp, pf, 
+                                pctx, pq, nq >>
 
 z_dq_after(self) == /\ pc[self] = "z_dq_after"
                     /\ IF rv[self] = 5
@@ -5889,8 +5916,8 @@ z_dq_after(self) == /\ pc[self] = "z_dq_after"
                                     dead, sti, rq, sq, sj, ww, rsq, bown, bwk, 
                                     bi, bcur, bw, jq, jj, jwk, dq, dj, oq, oop, 
                                     omode, oj, yq, yop, tq, top, af, wf, wop, 
-                                    sf, sctx, xf, cop, kj, pp, np, nbp, dp, pf, 
-                                    pctx, pq, pj, pd, nq >>
+                                    sf, sctx, xf, cop, kj, pp, np, nbp, nres, 
+                                    dp, pf, pctx, pq, pj, pd, nq >>
 
 dq_requeue(self) == /\ pc[self] = "dq_requeue"
                     /\ jobs' = [jobs EXCEPT ![pq[self]] = << pj[self] >> \o jobs[pq[self]]]
@@ -5912,7 +5939,8 @@ dq_requeue(self) == /\ pc[self] = "dq_requeue"
                                     bown, bwk, bi, bcur, bw, jq, jj, jwk, fj, 
                                     dq, dj, oq, oop, omode, oj, yq, yop, tq, 
                                     top, af, wf, wop, sf, sctx, xf, cop, kj, 
-                                    pp, np, nbp, dp, pf, pctx, pq, pj, pd, nq >>
+                                    pp, np, nbp, nres, dp, pf, pctx, pq, pj, 
+                                    pd, nq >>
 
 dq_res2(self) == /\ pc[self] = "dq_res2"
                  /\ IF fres[pf[self]] = "some"
@@ -5940,7 +5968,8 @@ dq_res2(self) == /\ pc[self] = "dq_res2"
                                  sj, ww, rsq, bown, bwk, bi, bcur, bw, jq, jj, 
                                  jwk, fj, dq, dj, oq, oop, omode, oj, yq, yop, 
                                  tq, top, af, wf, wop, sf, sctx, xf, cop, kj, 
-                                 pp, np, nbp, dp, pf, pctx, pq, pj, pd, nq >>
+                                 pp, np, nbp, nres, dp, pf, pctx, pq, pj, pd, 
+                                 nq >>
 
 dq_waitwake(self) == /\ pc[self] = "dq_waitwake"
                      /\ qstate' = [qstate EXCEPT ![pq[self]] = "WaitingForWake"]
@@ -5962,8 +5991,8 @@ dq_waitwake(self) == /\ pc[self] = "dq_waitwake"
                                      ww, rsq, bown, bwk, bi, bcur, bw, jq, jj, 
                                      jwk, fj, dq, dj, oq, oop, omode, oj, yq, 
                                      yop, tq, top, af, wf, wop, sf, sctx, xf, 
-                                     cop, kj, pp, np, nbp, dp, pf, pctx, pq, 
-                                     pj, pd, nq >>
+                                     cop, kj, pp, np, nbp, nres, dp, pf, pctx, 
+                                     pq, pj, pd, nq >>
 
 dq_ww1(self) == /\ pc[self] = "dq_ww1"
                 /\ IF dwSt[pd[self]] = "Woken"
@@ -5993,7 +6022,7 @@ dq_ww1(self) == /\ pc[self] = "dq_ww1"
                                 rsq, bown, bwk, bi, bcur, bw, jq, jj, jwk, fj, 
                                 dq, dj, oq, oop, omode, oj, yq, yop, tq, top, 
                                 af, wf, wop, sf, sctx, xf, cop, kj, pp, np, 
-                                nbp, dp, pf, pctx, pq, pj, pd, nq >>
+                                nbp, nres, dp, pf, pctx, pq, pj, pd, nq >>
 
 z_dq_ready(self) == /\ pc[self] = "z_dq_ready"
                     /\ pc' = [pc EXCEPT ![self] = Head(stack[self]).pc]
@@ -6020,7 +6049,7 @@ z_dq_ready(self) == /\ pc[self] = "z_dq_ready"
                                     bi, bcur, bw, jq, jj, jwk, fj, dq, dj, oq, 
                                     oop, omode, oj, yq, yop, tq, top, af, wf, 
                                     wop, sf, sctx, xf, cop, kj, pp, np, nbp, 
-                                    dp, nq >>
+                                    nres, dp, nq >>
 
 dq_setwaker(self) == /\ pc[self] = "dq_setwaker"
                      /\ fwaker' = [fwaker EXCEPT ![pf[self]] = pctx[self]]
@@ -6042,8 +6071,8 @@ dq_setwaker(self) == /\ pc[self] = "dq_setwaker"
                                      ww, rsq, bown, bwk, bi, bcur, bw, jq, jj, 
                                      jwk, fj, dq, dj, oq, oop, omode, oj, yq, 
                                      yop, tq, top, af, wf, wop, sf, sctx, xf, 
-                                     cop, kj, pp, np, nbp, dp, pf, pctx, pq, 
-                                     pj, pd, nq >>
+                                     cop, kj, pp, np, nbp, nres, dp, pf, pctx, 
+                                     pq, pj, pd, nq >>
 
 dq_waitpoll(self) == /\ pc[self] = "dq_waitpoll"
                      /\ qstate' = [qstate EXCEPT ![pq[self]] = "WaitingForPoll"]
@@ -6066,7 +6095,8 @@ dq_waitpoll(self) == /\ pc[self] = "dq_waitpoll"
                                      bown, bwk, bi, bcur, bw, jq, jj, jwk, fj, 
                                      dq, dj, oq, oop, omode, oj, yq, yop, tq, 
                                      top, af, wf, wop, sf, sctx, xf, cop, kj, 
-                                     pp, np, nbp, dp, pf, pctx, pq, pj, pd, nq >>
+                                     pp, np, nbp, nres, dp, pf, pctx, pq, pj, 
+                                     pd, nq >>
 
 dq_ww2(self) == /\ pc[self] = "dq_ww2"
                 /\ dblW1' = [dblW1 EXCEPT ![pd[self]] = WQ(pq[self])]
@@ -6097,8 +6127,8 @@ dq_ww2(self) == /\ pc[self] = "dq_ww2"
                                 dead, sti, rq, sq, sj, rsq, bown, bwk, bi, 
                                 bcur, bw, jq, jj, jwk, fj, dq, dj, oq, oop, 
                                 omode, oj, yq, yop, tq, top, af, wf, wop, sf, 
-                                sctx, xf, cop, kj, pp, np, nbp, dp, pf, pctx, 
-                                pq, pj, pd, nq >>
+                                sctx, xf, cop, kj, pp, np, nbp, nres, dp, pf, 
+                                pctx, pq, pj, pd, nq >>
 
 z_dq_pending(self) == /\ pc[self] = "z_dq_pending"
                       /\ rv' = [rv EXCEPT ![self] = 5]
@@ -6126,7 +6156,7 @@ z_dq_pending(self) == /\ pc[self] = "z_dq_pending"
                                       rsq, bown, bwk, bi, bcur, bw, jq, jj, 
                                       jwk, fj, dq, dj, oq, oop, omode, oj, yq, 
                                       yop, tq, top, af, wf, wop, sf, sctx, xf, 
-                                      cop, kj, pp, np, nbp, dp, nq >>
+                                      cop, kj, pp, np, nbp, nres, dp, nq >>
 
 dq_empty_w(self) == /\ pc[self] = "dq_empty_w"
                     /\ fwaker' = [fwaker EXCEPT ![pf[self]] = pctx[self]]
@@ -6147,8 +6177,8 @@ dq_empty_w(self) == /\ pc[self] = "dq_empty_w"
                                     sti, rq, sq, sj, ww, rsq, bown, bwk, bi, 
                                     bcur, bw, jq, jj, jwk, fj, dq, dj, oq, oop, 
                                     omode, oj, yq, yop, tq, top, af, wf, wop, 
-                                    sf, sctx, xf, cop, kj, pp, np, nbp, dp, pf, 
-                                    pctx, pq, pj, pd, nq >>
+                                    sf, sctx, xf, cop, kj, pp, np, nbp, nres, 
+                                    dp, pf, pctx, pq, pj, pd, nq >>
 
 dq_empty_idle(self) == /\ pc[self] = "dq_empty_idle"
                        /\ qstate' = [qstate EXCEPT ![pq[self]] = "Idle"]
@@ -6175,8 +6205,8 @@ dq_empty_idle(self) == /\ pc[self] = "dq_empty_idle"
                                        ww, rsq, bown, bwk, bi, bcur, bw, jq, 
                                        jj, jwk, fj, dq, dj, oq, oop, omode, oj, 
                                        yq, yop, tq, top, af, wf, wop, sf, sctx, 
-                                       xf, cop, kj, pp, np, nbp, dp, pf, pctx, 
-                                       pq, pj, pd, nq >>
+                                       xf, cop, kj, pp, np, nbp, nres, dp, pf, 
+                                       pctx, pq, pj, pd, nq >>
 
 dq_idle(self) == /\ pc[self] = "dq_idle"
                  /\ qstate' = [qstate EXCEPT ![pq[self]] = "Idle"]
@@ -6201,7 +6231,7 @@ dq_idle(self) == /\ pc[self] = "dq_idle"
                                  rsq, bown, bwk, bi, bcur, bw, jq, jj, jwk, fj, 
                                  dq, dj, oq, oop, omode, oj, yq, yop, tq, top, 
                                  af, wf, wop, sf, sctx, xf, cop, kj, pp, np, 
-                                 nbp, dp, pf, pctx, pq, pj, pd, nq >>
+                                 nbp, nres, dp, pf, pctx, pq, pj, pd, nq >>
 
 dq_panic(self) == /\ pc[self] = "dq_panic"
                   /\ qstate' = [qstate EXCEPT ![pq[self]] = "Panicked"]
@@ -6228,7 +6258,7 @@ dq_panic(self) == /\ pc[self] = "dq_panic"
                                   ww, rsq, bown, bwk, bi, bcur, bw, jq, jj, 
                                   jwk, fj, dq, dj, oq, oop, omode, oj, yq, yop, 
                                   tq, top, af, wf, wop, sf, sctx, xf, cop, kj, 
-                                  pp, np, nbp, dp, nq >>
+                                  pp, np, nbp, nres, dp, nq >>
 
 PollFuture(self) == pf_decide(self) \/ dq_res(self) \/ dq_deq(self)
                        \/ z_dq_after(self) \/ dq_requeue(self)
@@ -6270,8 +6300,8 @@ c_start(self) == /\ pc[self] = "c_start"
                                  chuteFn, pwTaken, nextPoll, ppItem, h, dead, 
                                  sti, rq, sq, sj, ww, jq, jj, jwk, fj, dq, dj, 
                                  oq, oop, omode, oj, yq, yop, tq, top, af, wf, 
-                                 wop, sf, sctx, xf, cop, kj, pp, np, nbp, dp, 
-                                 pf, pctx, pq, pj, pd, nq >>
+                                 wop, sf, sctx, xf, cop, kj, pp, np, nbp, nres, 
+                                 dp, pf, pctx, pq, pj, pd, nq >>
 
 z_c_exit(self) == /\ pc[self] = "z_c_exit"
                   /\ h' = ObsExit(h, self, 0, 0)
@@ -6291,8 +6321,8 @@ z_c_exit(self) == /\ pc[self] = "z_c_exit"
                                   dead, sti, rq, sq, sj, ww, rsq, bown, bwk, 
                                   bi, bcur, bw, jq, jj, jwk, fj, dq, dj, oq, 
                                   oop, omode, oj, yq, yop, tq, top, af, wf, 
-                                  wop, sf, sctx, xf, cop, kj, pp, np, nbp, dp, 
-                                  pf, pctx, pq, pj, pd, nq >>
+                                  wop, sf, sctx, xf, cop, kj, pp, np, nbp, 
+                                  nres, dp, pf, pctx, pq, pj, pd, nq >>
 
 caller(self) == c_start(self) \/ z_c_exit(self)
 
@@ -6321,7 +6351,7 @@ pt_recv(self) == /\ pc[self] = "pt_recv"
                                  bown, bwk, bi, bcur, bw, jq, jj, jwk, fj, dq, 
                                  dj, oq, oop, omode, oj, yq, yop, tq, top, af, 
                                  wf, wop, sf, sctx, xf, cop, kj, pp, np, nbp, 
-                                 dp, pf, pctx, pq, pj, pd, nq >>
+                                 nres, dp, pf, pctx, pq, pj, pd, nq >>
 
 pt_next(self) == /\ pc[self] = "pt_next"
                  /\ LET r == NTR(schedule) IN
@@ -6348,8 +6378,8 @@ pt_next(self) == /\ pc[self] = "pt_next"
                                  dead, sti, rq, sq, sj, ww, rsq, bown, bwk, bi, 
                                  bcur, bw, jq, jj, jwk, fj, dq, dj, oq, oop, 
                                  omode, oj, yq, yop, tq, top, af, wf, wop, sf, 
-                                 sctx, xf, cop, kj, pp, np, nbp, dp, pf, pctx, 
-                                 pq, pj, pd >>
+                                 sctx, xf, cop, kj, pp, np, nbp, nres, dp, pf, 
+                                 pctx, pq, pj, pd >>
 
 pt_after(self) == /\ pc[self] = "pt_after"
                   /\ busyLocked' = [busyLocked EXCEPT ![self] = FALSE]
@@ -6380,8 +6410,8 @@ pt_after(self) == /\ pc[self] = "pt_after"
                                   ppItem, h, dead, sti, rq, sq, sj, ww, rsq, 
                                   bown, bwk, bi, bcur, bw, jq, jj, jwk, fj, oq, 
                                   oop, omode, oj, yq, yop, tq, top, af, wf, 
-                                  wop, sf, sctx, xf, cop, kj, pp, np, nbp, dp, 
-                                  pf, pctx, pq, pj, pd, nq >>
+                                  wop, sf, sctx, xf, cop, kj, pp, np, nbp, 
+                                  nres, dp, pf, pctx, pq, pj, pd, nq >>
 
 z_pt_chk(self) == /\ pc[self] = "z_pt_chk"
                   /\ IF rv[self] = 9
@@ -6405,8 +6435,8 @@ z_pt_chk(self) == /\ pc[self] = "z_pt_chk"
                                   dead, sti, rq, sq, sj, ww, rsq, bown, bwk, 
                                   bi, bcur, bw, jq, jj, jwk, fj, dq, dj, oq, 
                                   oop, omode, oj, yq, yop, tq, top, af, wf, 
-                                  wop, sf, sctx, xf, cop, kj, pp, np, nbp, dp, 
-                                  pf, pctx, pq, pj, pd, nq >>
+                                  wop, sf, sctx, xf, cop, kj, pp, np, nbp, 
+                                  nres, dp, pf, pctx, pq, pj, pd, nq >>
 
 z_pt_done(self) == /\ pc[self] = "z_pt_done"
                    /\ TRUE
@@ -6427,8 +6457,8 @@ z_pt_done(self) == /\ pc[self] = "z_pt_done"
                                    sq, sj, ww, rsq, bown, bwk, bi, bcur, bw, 
                                    jq, jj, jwk, fj, dq, dj, oq, oop, omode, oj, 
                                    yq, yop, tq, top, af, wf, wop, sf, sctx, xf, 
-                                   cop, kj, pp, np, nbp, dp, pf, pctx, pq, pj, 
-                                   pd, nq >>
+                                   cop, kj, pp, np, nbp, nres, dp, pf, pctx, 
+                                   pq, pj, pd, nq >>
 
 pool(self) == pt_recv(self) \/ pt_next(self) \/ pt_after(self)
                  \/ z_pt_chk(self) \/ z_pt_done(self)
